@@ -12,1276 +12,2646 @@ Definition show_fres (r : fres) : string :=
   end.
 Definition check (rs : list rune) : string := digest (show_fres (format_res rs)).
 Definition full (rs : list rune) : string := show_fres (format_res rs).
-Eval vm_compute in ("<<<M1534>>>" ++ check (runes_of_ascii "// top
-options // c0
-{ // c1a
-  // c1b
-StringPrefixLenType // c2
-= // c3
-u16
-    // c4
-; ArrayPrefixLenType // c6a
-  // c6b
-= u8 // c8a
-  // c8b
-; FixedStringPadFromLeft =
-    // c11
-true // c12
-; FixedStringPadChar // c14
-= // c15a
-  // c15b
-' ' ;
-    // c17
-}
-    // c18
-packet
-    // c19
-Quote // c20a
-  // c20b
-{ int64
-    // c22
-OrderId
-    // c23
-,
-    // c24
-char[] // c25
-Ref
-    // c26
-, @leftPad ( '0' // c30
-) // c31a
-  // c31b
-char[ // c32
-5 ]
-    // c34
-price // c35
-, // c36
-} // c37
-packet Heartbeat { // c40
-zchar[ // c41
-3 ] venue // c44a
-  // c44b
-, string // c46a
-  // c46b
-Flags // c47a
-  // c47b
-, // c48
-} // c49a
-  // c49b
-packet // c50
-Trade
-    // c51
-{ repeat
-    // c53
-InTag787 { // c55a
-  // c55b
-i32
-    // c56
-venue // c57
-, // c58
-char[ // c59
-5
-    // c60
-] sym // c62
-,
-    // c63
-repeat
-    // c64
-InPx98
-    // c65
-{ // c66
-char[ // c67
-11
-    // c68
-]
-    // c69
-Qty
-    // c70
-, // c71
-Heartbeat // c72a
-  // c72b
-, // c73a
-  // c73b
-char[]
-    // c74
-price
-    // c75
-, // c76
-u32
-    // c77
-x
-    // c78
-, float64
-    // c80
-count // c81
-,
-    // c82
-repeat Quote
-    // c84
-,
-    // c85
-} , zchar[
-    // c88
-7 ] // c90a
-  // c90b
-Note
-    // c91
-, repeat // c93a
-  // c93b
-char[ // c94a
-  // c94b
-1 ] // c96a
-  // c96b
-Tail // c97
-,
-    // c98
-}
-    // c99
-, // c100
-repeat // c101
-char[ // c102
-2 ] seqNo , // c106
-InTail55 { // c108a
-  // c108b
-repeat
-    // c109
-Quote // c110
-, string // c112a
-  // c112b
-msgKind
-    // c113
-,
-    // c114
-InPx18 // c115a
-  // c115b
-{ // c116
-char[] count // c118
-, repeat Quote // c121
-, uint16 // c123a
-  // c123b
-Qty // c124a
-  // c124b
-, // c125a
-  // c125b
-} // c126a
-  // c126b
-, // c127
-char[ // c128a
-  // c128b
-4 // c129a
-  // c129b
-] // c130
-seqNo
-    // c131
-, // c132
-repeat // c133
-Heartbeat // c134a
-  // c134b
-, // c135a
-  // c135b
-repeat
-    // c136
-string sym // c138a
-  // c138b
-,
-    // c139
-} , // c141
-repeat // c142a
-  // c142b
-Quote , Heartbeat // c145a
-  // c145b
-,
-    // c146
-@leftPad
-    // c147
-( // c148
-' ' ) // c150a
-  // c150b
-char[ // c151
-10 ] // c153a
-  // c153b
-OrderId ,
-    // c155
-} // c156a
-  // c156b
-root
-    // c157
-packet // c158
-Fill { // c160a
-  // c160b
-Heartbeat // c161
-, uint32 // c163a
-  // c163b
-count , // c165
-u8 // c166a
-  // c166b
-OrderId
-    // c167
-, // c168
-match // c169
-OrderId as // c171a
-  // c171b
-Body // c172a
-  // c172b
-{ 96 // c174a
-  // c174b
-: Quote // c176a
-  // c176b
-,
-    // c177
-195
-    // c178
-: // c179
-Trade , // c181
-187 // c182
-: // c183
-Heartbeat , // c185a
-  // c185b
-} // c186a
-  // c186b
-,
-    // c187
-u32 venue @calculatedFrom( // c190
-""CRC32"" ) // c192
-, } // c194
-")).
-Eval vm_compute in ("<<<M320>>>" ++ check (runes_of_ascii "options { lengthOf =
-""CRC32"" ; stringy = uint16;  u8x =float32 ; x_y_z
-    // c
-    =  zchar[ 007]
-repeatCount  = ""a\""b"" ;
-// c
-//	t
-}
-MetaData trueish { As roots `" ++ [28040; 24687; 31867; 22411]%N ++ runes_of_ascii "`
-, char[ 00 ] Packet// c
-, } root
-packet roots
-{ int8 Logon, body@lengthOf( lengthOf
-) `
-` , @rightPad (	'0' )
-    Packet@calculatedFrom(""x y""
-)`a\` ,
-@lengthOf( T ) match matchKey as _x// trailing space 
-{ """ ++ [128512]%N ++ runes_of_ascii """	:
-stringy ,
-4294967296:  x_y_z ,""\n""
-: leftPad[
-42 , 42
-    , ""it's"" , ""\n"" ,""// no comment""	] : asx ,} , char[
-    10// trailing space 
-]BodyLength ,
-@leftPad (	'0'
-) char[]
-    /// triple
-    Z9_ `crlf
-line`, string falsey
-    , int16 // c
-asx  @calculatedFrom( ""x y"" ) ,u128 Z9_ `it's` ,
-    @rightPad
-// " ++ [128512]%N ++ runes_of_ascii " emoji
-// @lengthOf(
-( '0'
-)Packet {
-    // " ++ [128512]%N ++ runes_of_ascii " emoji
-    int64
-    float ,
-repeat leftPad{
-repeat
-Z9_ {
-    match T
-as lengthOf{ ""`tick`"" :msg_type""1"" : x_y_z , 0 : chars , } ,
-    } , repeat trueish
-    { zchar[
-255 ]
-crc	`doc` , char Logon @lengthOf( _x
-    // " ++ [128512]%N ++ runes_of_ascii " emoji
-    )
-,
-    //
-    a1 `doc`,
-//x
-//	t
-} , match msg_type as zchar { ""it's"" // c
-:
-/// triple
-// packet A { u8 x, }
-body
-, """ ++ [28040; 24687]%N ++ runes_of_ascii """ : // `tick` ""quote"" 'q'
-u,} ,} , } ,
-}
-packet// `tick` ""quote"" 'q'
-As// " ++ [27880; 37322]%N ++ runes_of_ascii "
+Eval vm_compute in ("<<<M3499>>>" ++ check (runes_of_ascii "options {  StringPrefixLenType=
+	u8 ;  ArrayPrefixLenType
+=
+u64
+    ;  FixedStringPadFromLeft = true
+
+; 
+JavaPackage = ""com.example.msg"" ;
+GoPackage= ""msg""
+
+; GoModule= 
+""example.com/msg""  ;}MetaData 
+Meta
+
 {
-@leftPad (
-    // c
-    '\x00' ) @tag( 255
-    )
-    @lengthOf( // `tick` ""quote"" 'q'
-o
-)zchar[ 42 ] string_ @calculatedFrom(
-""a\""b""	)`" ++ [28040; 24687; 31867; 22411]%N ++ runes_of_ascii "`
-, char[] repeatCount//	t
-@lengthOf(
-calculatedFrom) ,metadata @calculatedFrom(
-    ""abc""
-) `two words`
+u32	SeqNum `sequence number`  ,
+	char[
+8 ]  Symbol`symbol`	, zchar[5 ]  ZSym	`z symbol` , 
+string
+	Note ,Symbol 
+AltSymbol	`alias of symbol` , 
+f64
+	Price 
+,
+
+    }
+	packet	Inner {u8 a,	i16
+
+b ,
+
+    string  c
+
+, }	packet  Inner2	{u8	a2
+	, char[  3	]	c2
+
     ,
-// `tick` ""quote"" 'q'
-// c
-@lengthOf(matchKey ) match
-packetx as falsey { 007
-: A,""1"" : packetx , //
-7 :charz
-, [ 65535 ]:stringy 65535
-    :a1 [  ""a	b""
-, 1] :
-    Logon
-// a // b
-// " ++ [128512]%N ++ runes_of_ascii " emoji
-}, }")).
-Eval vm_compute in ("<<<M291>>>" ++ check (runes_of_ascii "//	t
-root
+
+    }
+packet Logon	{ u8
+x
+
+    , string
+user
+
+,
+repeat
+
+    u16	codes
+    ,
+}
+	packet Logout{
+
+u16 
+reason
+, } 
 packet
-packetx { @lengthOf( BodyLength )zchar[ // " ++ [27880; 37322]%N ++ runes_of_ascii "
-00 ]	uint8x	@lengthOf(
-    i8i8)`tab	here` , @lengthOf( x_y_z )@leftPad ( '0'
-)
-@lengthOf( Header )
-f32 pack @calculatedFrom( ""a\\""),
-@calculatedFrom(
-""`tick`"")
-//x
-// " ++ [27880; 37322]%N ++ runes_of_ascii "
-lengthOf// " ++ [128512]%N ++ runes_of_ascii " emoji
-MetaDataX ,@lengthOf( Packet ) lengthOf @calculatedFrom(
-""\n"" )
-    `doc`
-//	t
-//	t
-, @rightPad ( )	char[	0123456789	] float , @lengthOf(
-    options1 )
-//x
-//	t
-@tag(7
-    ) @tag(
-    007) crc int, chars @calculatedFrom(
-""" ++ [233]%N ++ runes_of_ascii "t" ++ [233]%N ++ runes_of_ascii """ )//x
-, @calculatedFrom(//x
-""CRC32"" )
-repeat char[] packetx `two words` , }
-packet T { }
-packet T {char[10
-] u128 ,
-    @lengthOf( calculatedFrom  )
-    chars
-    o
+    Empty 
+{
+} root	packet
+
+    Msg
+	{u8
+su8
+	,
+uint8
+    luint8 ,
+
+    u16
+su16 ,
+
+    uint16
+    luint16,
+
+u32
+su32
+
 ,
-@calculatedFrom(""\n"" ) match// @lengthOf(
-pack  as Logon  {
-    [
-""// no comment"" , 255 , 42 , ""CRC32"", ""// no comment"" ] : asx
-""it's"" :msg_type	,
-    // `tick` ""quote"" 'q'
-    0123456789  : //	t
-msg_type
-    //	t
+	uint32  luint32
+
+,u64 su64  ,
+    uint64  luint64 
+,
+    i8
+si8
+	, int8	lint8
     ,
-255  : //
-len
+
+    i16
+
+si16,
+	int16
+    lint16 ,
+i32
+
+    si32,
+	int32 lint32 
 ,
-}
-    , match chars as int
-    { [ 00
-    , 42,42 ] : x
-    4294967296	: i64_, [""a	b""  ,  007// c
-, """ ++ [128512]%N ++ runes_of_ascii """ , ""// no comment""
-// @lengthOf(
-// trailing space 
-] :f32a, 42 : packetx }
-, /// triple
-crc	{a1 `" ++ [233]%N ++ runes_of_ascii "` , } ,@tag(
-3 )
-    /// triple
-    zchar[7 ]  o`
-`
-, }
-    packet roots{u64 i64_ ``,
-    }")).
-Eval vm_compute in ("<<<M1530>>>" ++ check (runes_of_ascii "options {
-    LittleEndian = true;
-    StringPrefixLenType = u16;
-    ArrayPrefixLenType = u8;
-    FixedStringPadChar = '0';
-}
-packet Logout {
-    repeat i16 f1,
-    string Ref,
-    @rightPad('\x00') char[9] Tail,
-    repeat char[6] Flags,
-    repeat char[3] Acct,
-}
-packet Party {
-    char[2] f1,
-    u8 Side2,
-    @leftPad(' ') char[1] venue,
-}
-packet Order {
-    repeat i64 Ref,
-    InPx62 {
-        i32 OrderId,
-    },
-    InNote53 {
-        InClordid80 {
-            char[] Acct,
-            u32 Px,
-            repeat Party,
-        },
-        InPrice12 {
-            u8 pad0,
-        },
-        repeat Logout,
-        InFlags23 {
-            repeat string seqNo,
-            string sym,
-            int8 Flags,
-            zchar[5] lastPx,
-            zchar[6] Px,
-        },
-        char[10] Acct,
-        InPx18 {
-            zchar[2] count,
-            Party,
-        },
-    },
-    char[5] Side2,
-    char[1] Acct,
-}
-root packet Ack {
-    u32 Tail,
-    repeat char[4] msgKind,
-    repeat Logout,
-}
+i64
+si64
+,int64
+
+lint64 ,  f32
+
+sf32
+	,
+float32 lfloat32	,  f64
+
+    sf64
+,
+    float64 lfloat64,
+char[
+
+    6	] 
+fsplain , @leftPad
+(
+
+    '0'
+)
+    char[
+4
+]
+	fs0,
+	@rightPad(
+'0'
+	)char[
+    5
+
+]
+fs1
+,
+
+@leftPad ( 
+' ') char[
+
+6
+]
+
+    fs2,@rightPad (' ') char[
+
+    7 
+]
+    fs3,
+
+@leftPad(
+'\x00' 
+)	char[
+	8
+    ] 
+fs4, @rightPad (
+	'\x00'	) char[  9
+    ]
+fs5
+
+,
+
+    @leftPad
+( )
+	char[
+
+    10]
+fs6, @rightPad (
+)
+char[
+
+11
+]
+fs7
+
+,zchar[	7 ]
+    fz,
+	@leftPad( '0'
+    ) 
+zchar[
+3
+	] fzl0 , string	s1`doc`
+,char[] s2  ,  Inner 
+,  Sub {
+u8 q
+
+    ,  string  w,Deep{
+    u16
+
+z,
+repeat
+i32 zs
+
+,
+
+    } , }  ,repeat u8 
+ru8 , repeat
+    u16
+ru16	,
+	repeat
+
+    u32
+ru32 
+,
+
+    repeat
+    u64 
+ru64
+    , repeat i8	ri8,repeat
+
+i16 
+ri16
+,repeat
+    i32 
+ri32
+
+,
+	repeat
+
+i64
+
+    ri64
+
+    ,
+
+    repeat f32
+
+rf32	,
+repeat
+
+f64 rf64	, repeat 
+string  rstr
+
+,
+    repeat
+
+    char[]
+rstr2 
+, repeat  char[
+3
+	]rfs
+,
+
+repeat zchar[
+
+3
+
+]
+rfz
+
+, repeat
+
+    Inner2 ,
+
+repeat
+Grp
+{
+	u8	k
+
+    , char[
+    2
+    ]
+v ,
+
+    }
+    , SeqNum,SeqNum
+
+seq2,	repeat
+SeqNum
+    seqs ,
+
+Symbol
+, AltSymbol	alt,  ZSym
+
+, Note	,
+
+repeat	Symbol
+	syms
+,
+
+    Price	px 
+, u16
+    MsgType,
+
+    u32
+BodyLen	@lengthOf(
+	Body	) 
+,match
+MsgType
+
+    as
+    Body
+    {
+
+    1 
+:
+
+Logon
+
+    ,
+[
+
+2 ,  3 
+] :Logout
+
+    ,
+    7
+
+    :Logon,
+9	: Empty	,  } 
+,
+
+u32
+    Checksum @calculatedFrom(
+
+    ""CRC32""
+),
+	}
 ")).
-Eval vm_compute in ("<<<M1694>>>" ++ check (runes_of_ascii "packet leftPad {
-    @tag(3)
-    @tag(255)
-    @tag(7)
-    Packet @calculatedFrom(""\n""),
+Eval vm_compute in ("<<<M4125>>>" ++ check (runes_of_ascii "MetaData len {
+    char[007] T,
+}
+
+packet chars {
+    @tag(0)
+    char[] stringy @calculatedFrom(""a\""b"") `" ++ [233]%N ++ runes_of_ascii "`,
+    @tag(65535)
+    repeat o MetaDataX,
+    crc @lengthOf(i8i8),
+    @calculatedFrom(""x y"")
+    roots @lengthOf(packetx),
+    @calculatedFrom(""1"")
+    @lengthOf(Logon)
+    @lengthOf(x)
+    repeat T pack,
+    @lengthOf(lengthOf)
+    @tag(42)
+    i64 crc @calculatedFrom(""packet"") `
+    `,
+    i8i8 ``,
+}
+
+packet len {
+    match u128 as string_ {
+        65535 : u128,
+    },
+    As,
+    Header,// " ++ [27880; 37322]%N ++ runes_of_ascii "
+    @rightPad('\x00')
+    @leftPad('\x00')
+    asx {
+        /// triple
+        repeat BodyLength {
+            asx {
+                repeat u32 Header,
+                repeat i64 i64_,
+                // 50% %s
+                // `tick` ""quote"" 'q'
+                match rootA as float {
+                    [
+                        007, ""CRC32"", 7, ""it's"", 7,
+                        3
+                    ] : x_y_z,
+                    007 : pack,
+                },
+                char[] metadata @lengthOf(BodyLength),
+            },
+            repeat char[00] u `{ , }`,
+            repeat zchar[3] tag,
+            repeat crc int `line1
+            line2`,
+        },// `tick` ""quote"" 'q'
+        char[255] asx @lengthOf(chars),
+        int64 Foo ``,
+        _x {
+            T {
+                string_ `" ++ [28040; 24687; 31867; 22411]%N ++ runes_of_ascii "`,
+                char[] chars,
+            },
+            repeat a1 {
+                repeatCount @lengthOf(o),
+                i64 leftPad,
+                zchar[255] float @calculatedFrom(""\" ++ [233]%N ++ runes_of_ascii """),
+                repeat string i8i8,
+                // trailing space 
+                // `tick` ""quote"" 'q'
+            },
+        },
+    },
     @calculatedFrom(""abc"")
-    repeat f32a trueish `// not a comment`,
+    repeat f32a trueish `u8 x,`,
     match calculatedFrom as stringy {
         [1, 65535] : u,
     },
-    zchar[10] o ``,
-    @lengthOf(calculatedFrom)
-    char x_y_z,
-    char[] BodyLength,
-    stringy o `line1
-    line2`,
-    @tag(00)
-    options1 {
-        // @lengthOf(
-        float32 asx @lengthOf(roots),
-        // " ++ [128512]%N ++ runes_of_ascii " emoji
-        // `tick` ""quote"" 'q'
-        match Z9_ as int {
-            ""{,}"" : A,
-            [""a\""b"", ""it's""] : repeatCount,
-            1 : float,
-            ""a\\"" : zchar,
-            // `tick` ""quote"" 'q'
+}
+
+packet options1 {
+    string calculatedFrom `" ++ [233]%N ++ runes_of_ascii "`,
+    @lengthOf(x_y_z)
+    zchar[0123456789] x_y_z @lengthOf(falsey) `a\`,
+}")).
+Eval vm_compute in ("<<<M4204>>>" ++ check (runes_of_ascii "options {
+    BodyLength = 7;
+    len = string
+    As = char[7];
+}
+
+options {
+}
+
+root packet zchar {
+    @rightPad(' ')
+    char[] zchar @calculatedFrom(""a\\""),
+    zchar[7] i64_,
+    @lengthOf(u8x)
+    /// triple
+    @lengthOf(i8i8)
+    body @lengthOf(body),
+    roots {
+        match string_ as Z9_ {
+            """ ++ [128512]%N ++ runes_of_ascii """ : body,
+            10 : matchKey,
+            0123456789 : packetx,
             [
-                0, ""abc"", 0, 00, 0,
-                """ ++ [128512]%N ++ runes_of_ascii """
-            ] : T,
-            0123456789 : As,
+                ""packet"", ""abc"", ""CRC32"", 0, 1,
+                0123456789
+            ] : Header,
+            65535 : lengthOf,
         },
     },
-    @lengthOf(msg_type)
-    i8 matchKey,
-    repeat len len `a\`,
-}")).
-Eval vm_compute in ("<<<M344>>>" ++ check (runes_of_ascii "// " ++ [27880; 37322]%N ++ runes_of_ascii "
-root packet _x {
-//	t
-// packet A { u8 x, }
-@rightPad (
-) zchar[
-    007]
-    Logon @calculatedFrom(""x y""),zchar[
-7]
-string_ @lengthOf(
-Packet /// triple
-)
-`two words`,
-@tag( 007 )	@calculatedFrom(
-    ""x y"" )repeat
-calculatedFrom { // packet A { u8 x, }
-zchar @calculatedFrom( """ ++ [233]%N ++ runes_of_ascii "t" ++ [233]%N ++ runes_of_ascii """
-    // `tick` ""quote"" 'q'
-    )	,
-int32 leftPad , } ,repeat body chars ,	@lengthOf(
-options1
-    ) repeat
-    //	t
-    char[
-255] Foo  ,
-// c
-//
-repeat MetaDataX
-    { pack, } ,char[
-7 ] repeatCount @calculatedFrom(""it's""  ) , }
-    // trailing space 
-    packet Packet {
-    Header
+    @calculatedFrom("""")
+    match float as calculatedFrom {
+        // 50% %s
+        """ ++ [128512]%N ++ runes_of_ascii """ : Logon,
+        [3, 65535] : options1,
+        ""a\\"" : Foo,
+    },
+    Logon,
+    match o as calculatedFrom {
+        3 : uint8x,
+    },
+    rootA repeatCount,// c
+    options1 {
+        f32 crc,
+        char[] MetaDataX,
+        repeat zchar[3] Header `line1
+                line2`,
+        body {
+            repeat Packet,
+            Header {
+                char[] float @calculatedFrom(""\" ++ [233]%N ++ runes_of_ascii """) `" ++ [233]%N ++ runes_of_ascii "`,
+                match zchar as matchKey {
+                    [""CRC32""] : Foo,
+                    // @lengthOf(
+                    """ ++ [233]%N ++ runes_of_ascii "t" ++ [233]%N ++ runes_of_ascii """ : BodyLength,
+                    0123456789 : crc,
+                    ""it's"" : stringy,
+                    ""a\\"" : asx,
+                },
+                u64 leftPad @calculatedFrom(""`tick`""),
+                // 50% %s
+                // c
+                packetx,
+            },
+            f64 crc,
+            zchar[65535] zchar,
+        },// a // b
+    },
+    @calculatedFrom(""// no comment"")
+    u64 i8i8,
+}
+
 // " ++ [27880; 37322]%N ++ runes_of_ascii "
-// @lengthOf(
-@lengthOf( uint8x ) `two words` ,} options//	t
-{  } root
-    // " ++ [27880; 37322]%N ++ runes_of_ascii "
-    packet msg_type
-{int32 //x
-body`" ++ [28040; 24687; 31867; 22411]%N ++ runes_of_ascii "`,
-    }
-")).
-Eval vm_compute in ("<<<M236>>>" ++ check (runes_of_ascii "MetaData As {  } packet float { // @lengthOf(
-options1  Pad `// not a comment` ,
-uint16 As `line1
-line2` ,float32 stringy@calculatedFrom(
-""`tick`""
-) `" ++ [233]%N ++ runes_of_ascii "` ,
-repeat Packet { zchar[ 3 ] T
-    @calculatedFrom(
-""x y""),  char[ 7 ]  asx @lengthOf( tag) ,
-    //
-    int64 charz `u8 x,`
-, } , uint32
-len , @tag(	0123456789
-) Foo packetx `// not a comment`,char[] trueish @lengthOf(
-rootA
-    ) , @leftPad (//
-'0'  ) repeat  x_y_z `{ , }` , i64 u128 ,
-    }
-    packet msg_type//x
-{
-char[]
-i8i8
-    `doc` //	t
-,string trueish @calculatedFrom(
-    """" ), char[ 7 ]/// triple
-string_// packet A { u8 x, }
-`say ""hi""`
-/// triple
-//
-,	}
-")).
-Eval vm_compute in ("<<<M1794>>>" ++ check (runes_of_ascii "
-root  packet // a // b
-
-	matchKey{ @calculatedFrom(
-
-""// no comment"" ) 
-match
-matchKey
-    as
-crc
-
-{65535	:	metadata	,
-255
-:
-options1 
-,	""{,}"" 
-:
-asx
-,[
-
-""\" ++ [233]%N ++ runes_of_ascii """, 00  ,""""  ,	/// triple
-  ""{,}"",
-    ""a\\""
-	] :	msg_type
+MetaData u128 {
+}")).
+Eval vm_compute in ("<<<M120>>>" ++ check (runes_of_ascii "// @lengthOf(
+packet
+trueish { Pad { float @lengthOf( // " ++ [128512]%N ++ runes_of_ascii " emoji
+uint8x
+    // a // b
+    ), float32 x_y_z @calculatedFrom( ""a\\""
+// c
+// " ++ [128512]%N ++ runes_of_ascii " emoji
+), }
 ,
-007
-	:f32a 
-, //x
-  }  , @lengthOf(
-
-    repeatCount 
+uint8
+matchKey ,
+    @leftPad ( ) _x
+    @lengthOf( o ) `{ , }` ,roots  { u64 stringy // packet A { u8 x, }
+`two words` , repeat
+// `tick` ""quote"" 'q'
+// c
+i8 lengthOf`doc` ,
+    } // trailing space 
+,pack	`" ++ [233]%N ++ runes_of_ascii "`  , packetx
+// " ++ [128512]%N ++ runes_of_ascii " emoji
+// trailing space 
+pack , repeat packetx
+{falsey  @lengthOf(
+    _x //	t
 )
-
-@leftPad 
-(
+,}
+    , u128@calculatedFrom( ""CRC32""
+    // @lengthOf(
+    ) ,@tag(
+    0123456789)rootA //
+@lengthOf( Pad
+)
+, // `tick` ""quote"" 'q'
+}  packet Foo// 50% %s
+{  @lengthOf(
+    options1// `tick` ""quote"" 'q'
+)	repeatCount packetx  , }options { T =255
+leftPad =
+' ';roots=  ""\n""; } packet asx
+//x
+/// triple
+{ f32a {float32 falsey ,
+}, @leftPad ( '\x00' )
+    uint16 MetaDataX `crlf
+line`
+    ,  repeat
+    string options1, repeat i32
+    leftPad /// triple
+`// not a comment` , repeat string // c
+stringy `100% of %d`
+,
+repeat chars  {
+string
+MetaDataX`100% of %d`, f64 leftPad `crlf
+line` , }	,
+char[]
+    //	t
+    metadata//x
+,@tag( 10
+    // trailing space 
+    ) char[] Pad`tab	here` ,
+match matchKey as o	{ ""{,}"" : MetaDataX	, [
+7 , ""\" ++ [233]%N ++ runes_of_ascii """  ,
+3
+    ,
+""abc""
+,10
+] :
+stringy  ,""\" ++ [233]%N ++ runes_of_ascii """ :  zchar ,
+[
+    /// triple
+    00 ,
+// " ++ [128512]%N ++ runes_of_ascii " emoji
+// trailing space 
+3 ] :charz
+,
+    ""a\\"":msg_type , } , }")).
+Eval vm_compute in ("<<<M363>>>" ++ check (runes_of_ascii "options { BodyLength
+    //
+    = """ ++ [28040; 24687]%N ++ runes_of_ascii """ Header= '0' ;  }root
+packet
+crc{
+asx @lengthOf(crc)`" ++ [28040; 24687; 31867; 22411]%N ++ runes_of_ascii "`
+, @calculatedFrom( ""x y""	)@lengthOf( Logon)repeat f32a
+    // c
+    {i32 calculatedFrom //x
+@lengthOf( Packet )
+    `// not a comment` , charz @lengthOf( u	) ,
+    match  asx
+    as
+As{
+    ""it's"":/// triple
+_x
+    //
+    , ""x y"" :  calculatedFrom ,	""packet"" : Pad ,
+}, charz
+    chars//x
+,
+    } , @leftPad
+    ( ' '	) // `tick` ""quote"" 'q'
+i8 A`line1
+line2` , repeat
+    zchar[ 42 ]x
+,As`" ++ [233]%N ++ runes_of_ascii "`
+    , char[] crc , @calculatedFrom(	""`tick`"" ) Header
+    // 50% %s
+    {match
+chars
+// a // b
+// 50% %s
+as float // @lengthOf(
+{
+""abc""
+:
+matchKey , 007:calculatedFrom ,
+    // 50% %s
+    ""\n"" : i64_ , ""packet"": i8i8 [10 ,
+0123456789
+]
+:
+roots	, } ,
+metadata repeatCount	, // " ++ [128512]%N ++ runes_of_ascii " emoji
+}	,}
+packet o{
+u16 chars@calculatedFrom(	""abc"" //
+), repeat int {uint8 len
+,
+    // `tick` ""quote"" 'q'
+    u128 asx, match u128 as
+    lengthOf
+{ ""it's"": packetx 0123456789: // packet A { u8 x, }
+a1 , [ """" ,0123456789] :	asx , } ,} ,
+char _x
+@lengthOf(  repeatCount )
+    // `tick` ""quote"" 'q'
+    ,repeat
+uint64 u128 , } root
+    // packet A { u8 x, }
+    packet	_x
+{
+repeat int {repeat
+Z9_
+// trailing space 
+//
+body ,
+// 50% %s
+//x
+} ,	}
+// trailing space 
+")).
+Eval vm_compute in ("<<<M915>>>" ++ check (runes_of_ascii "options	{
+lengthOf
+    =
+    """ ++ [233]%N ++ runes_of_ascii "t" ++ [233]%N ++ runes_of_ascii """
+// 50% %s
+//x
+; } packet// packet A { u8 x, }
+i8i8 { match stringy as a1 { 42 : i64_ 10  : chars  , } , @tag( 255  ) f64
+    // 50% %s
+    MetaDataX , @calculatedFrom( ""it's"" )@rightPad(
+) @tag( 255
+)
+u32  metadata
+// trailing space 
+//
+@calculatedFrom( ""a\""b"" )
+, i64_ zchar , char[
+    42 ]
+    //	t
+    BodyLength `
+`, // packet A { u8 x, }
+zchar[ 0123456789 ] stringy @lengthOf( crc ), @rightPad( '0' )
+u As , f32
+    int , repeat msg_type `it's` , } root
+packet crc	{	repeat zchar[007 ]
+    MetaDataX
+,u
+    roots	, @calculatedFrom(
+    """" )
+    match// " ++ [27880; 37322]%N ++ runes_of_ascii "
+i64_
+as u128 { [ // a // b
+""" ++ [28040; 24687]%N ++ runes_of_ascii """,// trailing space 
+""\" ++ [233]%N ++ runes_of_ascii """ ,""// no comment"", """" ,
+    ""{,}"" , """ ++ [128512]%N ++ runes_of_ascii """ ]:
+    T 65535
+    : uint8x
+    ,
+3 : rootA
+// `tick` ""quote"" 'q'
+// trailing space 
+, 3 :
+// trailing space 
+// `tick` ""quote"" 'q'
+chars ,
+00	:
+    //
+    matchKey, ""packet"" :
+stringy , }	,
+/// triple
+// a // b
+}
+    root packet Foo {float32 T
+,}
+packet
+    charz { chars Pad
+`crlf
+line` , char[]	u8x @calculatedFrom( ""a	b"" ),	@tag(65535)
+// packet A { u8 x, }
+/// triple
+@tag(0123456789 ) // 50% %s
+i16 Packet
+`crlf
+line` // packet A { u8 x, }
+, }")).
+Eval vm_compute in ("<<<M248>>>" ++ check (runes_of_ascii "options //
+{ o = zchar[ 0 ] ;
+    // 50% %s
+    leftPad ='0'
+    ; charz =
+""packet"" // a // b
+; zchar
+    =
+i32
+    ;u8x = true } MetaData As {
+    char[ 0 ] As `100% of %d` , i64 charz ,
+tag
+len`tab	here`
+, //
+Logon leftPad `it's`,
+char[]
+x`crlf
+line`
+,
+}
+root //
+packet _x{ } packet
+// `tick` ""quote"" 'q'
+// c
+Header { @leftPad ( '\x00' ) Header
+    //
+    @lengthOf(	metadata
     )
+    `" ++ [28040; 24687; 31867; 22411]%N ++ runes_of_ascii "` , } root packet
+    //x
+    f32a  { @lengthOf(
+    int ) repeat Foo { u32 i64_
+, } ,
+Packet  @lengthOf(
+tag
+)
+    `u8 x,` ,
+    @calculatedFrom(""" ++ [233]%N ++ runes_of_ascii "t" ++ [233]%N ++ runes_of_ascii """
+    ) @calculatedFrom( ""a	b""// trailing space 
+)
+    char[]	lengthOf`{ , }` , // a // b
+repeat int16 falsey `
+` , _x	u128, @lengthOf( pack
+)	repeat int32  trueish `100% of %d` , // " ++ [27880; 37322]%N ++ runes_of_ascii "
+@lengthOf(	i64_ ) match A as
+    x_y_z{
+    // @lengthOf(
+    [ """ ++ [28040; 24687]%N ++ runes_of_ascii """ ,	0123456789,	0 ,7	, 65535,
+    /// triple
+    ""{,}"" // " ++ [27880; 37322]%N ++ runes_of_ascii "
+] : //x
+options1,
+    ""`tick`"" :	uint8x ""packet"" : charz ,
+}
+, @tag( 0123456789) char[ 10 ] roots
+    @lengthOf( // @lengthOf(
+a1 )
+,
+f64 asx
 @calculatedFrom(
+""a	b"" ) ,
+    u8 lengthOf@calculatedFrom(  ""\" ++ [233]%N ++ runes_of_ascii """ ), }
+")).
+Eval vm_compute in ("<<<M1160>>>" ++ check (runes_of_ascii "options	{  x
+= ""{,}""
+} packet
+charz { @calculatedFrom(
+    """ ++ [28040; 24687]%N ++ runes_of_ascii """
+) packetx
+,
+}
+options
+{ } packet asx
+{ repeat
+    MetaDataX // " ++ [27880; 37322]%N ++ runes_of_ascii "
+leftPad
+    , }root
+//
+/// triple
+packet Header {lengthOf
+{ string_ float  ,
+leftPad , float32
+roots
+    ,repeat i8i8 { // @lengthOf(
+calculatedFrom lengthOf ,
+    zchar[ 0
+    // @lengthOf(
+    ] calculatedFrom @calculatedFrom(  ""\n"" ) ,
+roots
+    { char[0123456789	]roots `doc`  , } // " ++ [27880; 37322]%N ++ runes_of_ascii "
+, string tag @calculatedFrom(  ""a	b"" ) ,} // trailing space 
+,
+    } , string_ repeatCount ,i8 // " ++ [128512]%N ++ runes_of_ascii " emoji
+zchar
+    @lengthOf( i64_ ),	T `// not a comment` , @lengthOf(
+x_y_z
+) match o as chars { [ 007
+,
+10 ,
+""a\\"" , 00 ,""`tick`"" , 007 ,	""{,}"" ,// a // b
+""a\\""
+    ]
+    :
+// 50% %s
+// " ++ [128512]%N ++ runes_of_ascii " emoji
+lengthOf ,
+}
+    ,
+calculatedFrom stringy , @lengthOf( i8i8) @tag( 3)
+//
+//	t
+chars
+{
+x_y_z@calculatedFrom(
+""it's"") ,
+string
+i64_	, int32
+zchar, u8x , } , matchKey trueish	, // " ++ [128512]%N ++ runes_of_ascii " emoji
+@calculatedFrom(""" ++ [233]%N ++ runes_of_ascii "t" ++ [233]%N ++ runes_of_ascii """) char[] Header
+, match options1// trailing space 
+as Foo  { 3
+: zchar
+, 1
+: crc, }
+    ,} //	t")).
+Eval vm_compute in ("<<<M3960>>>" ++ check (runes_of_ascii "MetaData uint8x {
+    f32a pack,
+    uint64 _x `line1
+    line2`,
+}
 
-    ""a\\""
-	)
+packet options1 {
+    @rightPad()
+    //x
+    // `tick` ""quote"" 'q'
+    zchar[42] Z9_,
+    int64 u `tab	here`,
+    @tag(0)
+    zchar @lengthOf(body),
+    @calculatedFrom(""packet"")
+    repeat Logon msg_type `crlf
+    line`,
+    @tag(0123456789)
+    zchar[0] u `line1
+    line2`,
+    i64_ {
+        u64 u128 @calculatedFrom(""it's""),
+    },
+    @calculatedFrom(""abc"")
+    @tag(1)
+    @rightPad('0')
+    repeat Foo lengthOf,
+}
+
+MetaData BodyLength {
+    string repeatCount,
+    zchar[00] packetx `two words`,
+    char[] MetaDataX `doc`,
+}
+
+packet packetx {
+    @tag(10)
+    @lengthOf(charz)
+    @lengthOf(zchar)
+    repeat matchKey,
+    @lengthOf(MetaDataX)
+    repeat leftPad roots,
+    @calculatedFrom(""a\""b"")
+    match matchKey as chars {
+        007 : Foo,
+        // a // b
+        """ ++ [128512]%N ++ runes_of_ascii """ : zchar,
+        007 : crc,
+    },
+    Z9_ @lengthOf(charz),
+    @leftPad('\x00')
+    repeat zchar[65535] charz,
+}")).
+Eval vm_compute in ("<<<M3675>>>" ++ check (runes_of_ascii "
+packet
+x_y_z { @calculatedFrom( 
+// packet A { u8 x, }
+  // @lengthOf(
+
+""" ++ [128512]%N ++ runes_of_ascii """  ) 
+//
+		match
+
+    a1
+as
+
+MetaDataX { 
+""" ++ [128512]%N ++ runes_of_ascii """ :u8x
+
+, [ """ ++ [28040; 24687]%N ++ runes_of_ascii """	]
+    : asx
+
+255	:falsey
+	, [ 007]:
+
+    stringy
+10
+
+:
+    chars 
+,
+}	, string_
+
+{	char[
+	4294967296
+    ]	//x
+    packetx 
+      // packet A { u8 x, }
+
+,
+} ,
+    } 
+root  packet
+u128 
+{
+calculatedFrom  /// triple
+MetaDataX	`it's` 	 //
+    ,
+
+    repeat leftPad 
+    // c
+    // a // b
+x_y_z 
+
+    //x
+  	// " ++ [27880; 37322]%N ++ runes_of_ascii "
+  , 
+} 
+packet BodyLength
+{
+
+char 
+      // c
+
+  Pad  @lengthOf( 
+        // c
+  // `tick` ""quote"" 'q'
+uint8x
+) `line1
+line2`
+
+,  uint16 charz
+
+    , 
+	    // " ++ [128512]%N ++ runes_of_ascii " emoji
+// c
+
+@leftPad	// @lengthOf(
+    (
+'\x00' 
+)repeat A
+{	repeat
+	float32
+
+Z9_ , u16	A 
+@calculatedFrom(
+""1"")
+
+``
+,	Pad	{ Packet
+{repeat	uint8
+    trueish
+, stringy	@lengthOf(  u)`doc`
+    , 	 // c
+charz Foo
+
+    `
+` , uint16
+    falsey`100% of %d`  ,}
+, } ,  f32 roots
+, }
+	,
+	// c
+    }")).
+Eval vm_compute in ("<<<M1083>>>" ++ check (runes_of_ascii "options {  string_ = '0'Header= ""\" ++ [233]%N ++ runes_of_ascii """
+    packetx = 3 } MetaData// " ++ [27880; 37322]%N ++ runes_of_ascii "
+calculatedFrom {} packet // packet A { u8 x, }
+lengthOf//	t
+{ uint64
+    i64_ @lengthOf(  charz ) `doc` , @tag(1 ) match Z9_ as x{ ""packet""	:Logon 7 //	t
+: // packet A { u8 x, }
+trueish ,""" ++ [128512]%N ++ runes_of_ascii """ : T
+    , [
+""`tick`"" , 0
+/// triple
+// trailing space 
+]
+    :// `tick` ""quote"" 'q'
+tag[
+""x y"" ]  :i8i8  }
+,
+    @lengthOf(metadata	)	@calculatedFrom(
+""" ++ [128512]%N ++ runes_of_ascii """	)
+    // c
+    @calculatedFrom(
+    //x
+    ""a	b"" )//
+stringy
+    @calculatedFrom(  ""abc""), @lengthOf( Z9_
+)
+match
+As as  matchKey{
+    00 // " ++ [27880; 37322]%N ++ runes_of_ascii "
+: u8x
+,
+    // " ++ [27880; 37322]%N ++ runes_of_ascii "
+    [	0
+// packet A { u8 x, }
+// a // b
+] :
+    matchKey	, 10	: matchKey}
+    // trailing space 
+    , char[] //
+leftPad ,
+repeatCount@calculatedFrom( """")
+, repeat char[
+1
+    ] f32a// packet A { u8 x, }
+`u8 x,` ,} packet i8i8 { @calculatedFrom(""" ++ [28040; 24687]%N ++ runes_of_ascii """ )repeat
+    string // " ++ [27880; 37322]%N ++ runes_of_ascii "
+stringy ,}")).
+Eval vm_compute in ("<<<M3508>>>" ++ check (runes_of_ascii "
+packet
+
+    asx {
+    repeat
+    lengthOf
+
+{
+f32	matchKey
+
+    `" ++ [28040; 24687; 31867; 22411]%N ++ runes_of_ascii "`
+
+, 
+}
+    , @leftPad
+
+( ) 
+match
+    a1 as
+asx{ [
+    ""\" ++ [233]%N ++ runes_of_ascii """
+
+    ,
+10
+
+,	""it's""
+,
+""a\\""] 
+        /// triple
+  	// trailing space 
+    :
+    metadata
+	,
+[
+42
+] :  crc
+	,  42 :
+    metadata,10
+	:
+	    // c
+    /// triple
+	_x , 
+}
+
+, @lengthOf( options1
+
+    )match
+pack 
+as	len  {
+
+    7 
+:
+    Z9_ 
+,
+    // packet A { u8 x, }
+		0	:
+i64_ 
+, 65535:
+u8x
+    ,  4294967296 
+:
+    packetx
+    ,
+
+[
+
+""x y"" , 
+	/// triple
+  	// @lengthOf(
+  ""packet"", ""CRC32""
+    ,
+00 
+,
+
+    1
+, 00
+// a // b
+
+	, ""CRC32""
+]
+	: 
+T
+,}
+    , 
+@rightPad
+    (' ' ) @leftPad
+
+    ( '\x00' )@tag(  00 )
+    i32
+	pack
+,@leftPad (	'0'  )
+lengthOf 
+@calculatedFrom(	""\n"" 
+) , uint64
 
 float
 
-,@tag(42
-    ) 
-u8 
-crc
-	@calculatedFrom(  //
-  """ ++ [28040; 24687]%N ++ runes_of_ascii """  // " ++ [27880; 37322]%N ++ runes_of_ascii "
-		)
-,
-uint64
-
-    BodyLength	@lengthOf( 
-f32a )
-`" ++ [28040; 24687; 31867; 22411]%N ++ runes_of_ascii "`
-
-, 
-tag a1	,
-	tag	@calculatedFrom( ""`tick`""
-	)
-    , }// trailing space 
-")).
-Eval vm_compute in ("<<<M1548>>>" ++ check (runes_of_ascii "
-
+    `100% of %d`
+    , } 
+  // trailing space 
   options
-    {LittleEndian=
-true; 
-StringPrefixLenType
-=u16
-
-; ArrayPrefixLenType =
-
-u64; 
-}  packet Fill 
 {
-
-    } packet Logon  { repeat
-char[ 3 ] 
-Tail	,
-    zchar[
-6 
-]  venue
-    ,
-	repeat
-	string
-
-Side2
-
-,
-	} root packet Cancel 
-{	char[]  Flags,
-
-char[]
-	OrderId 
-, zchar[6
-
-]
-	msgKind , Fill
-	,
-
-char[]
-    Acct  ,
-	u8
-
-    f1 ,	match
-f1
-	as
-	Body
-	{
-
-    188 
-:Fill
-,	5
-
-:  Logon
-    ,
-	} ,
-	u32
-    clOrdID
-	@calculatedFrom(
-    ""CRC32"" 
-) ,}")).
-Eval vm_compute in ("<<<M1974>>>" ++ check (runes_of_ascii "MetaData Header {
-    int64 zchar `u8 x,`,
-    Header u8x,
-    zchar[65535] u,
-    A options1 `it's`,
-    zchar[007] MetaDataX,
-    zchar[0] As,
-}
-
-MetaData Logon {
-    char[] rootA,
-}
-
-packet int {
-    f32 falsey,
-}
-
-MetaData float {
-    len leftPad,
-    A Foo `tab	here`,
-    char[65535] T `line1
-        line2`,
-}
-
-options {
-    // " ++ [128512]%N ++ runes_of_ascii " emoji
-    // " ++ [27880; 37322]%N ++ runes_of_ascii "
-    float = '0';
-    float = true;
-    Foo = ""\n""
-}")).
-Eval vm_compute in ("<<<M245>>>" ++ check (runes_of_ascii "root packet  roots
-{ falsey@calculatedFrom(""a\""b"" ) ,
-    @lengthOf(
-A )Header @calculatedFrom( ""packet""
-) `u8 x,` ,
-@leftPad  (' '
-) @lengthOf(
-    calculatedFrom)
-// `tick` ""quote"" 'q'
-// packet A { u8 x, }
-match rootA as x_y_z {42	:
-    //	t
-    len, }, } options //x
-{ chars =// c
-4294967296 ;
-    BodyLength
-    = 0123456789 roots
-    = ""a\""b"";
-} //")).
-Eval vm_compute in ("<<<M1796>>>" ++ check (runes_of_ascii "
-options
-
-{ LittleEndian
-	=	true
-; StringPrefixLenType
-
-=
-u8
-
-    ;  ArrayPrefixLenType
-    =
-	u8	; } packet	Ack
-
-{
-    }root 
-packet
-Quote {
-Ack
-, 
-InSym94  { repeat
-
-Ack
-
-    ,
-	}  ,u16
-
-    msgKind
-,
-	u16 OrderId@lengthOf( Body
-	)
-
-    ,
-
-match
-msgKind
-as 
-Body {[ 110,48 
-]
-: 
-Ack
-, } ,
 
     } ")).
-Eval vm_compute in ("<<<M160>>>" ++ check (runes_of_ascii "packet matchKey
-{ // packet A { u8 x, }
-zchar[ 65535
-//	t
-// packet A { u8 x, }
-] Foo @calculatedFrom(
-// " ++ [128512]%N ++ runes_of_ascii " emoji
-// a // b
-""\n"" ) ``, @tag(10 ) repeat
-x Logon`
-` , @calculatedFrom(
-    ""it's"" ) @rightPad (
-) zchar[ 255 ]	lengthOf
-    // @lengthOf(
-    , repeat uint8x`" ++ [233]%N ++ runes_of_ascii "`
-,
-    }
-")).
-Eval vm_compute in ("<<<M501>>>" ++ check (runes_of_ascii "root packet tag { packet  packet MetaDataX{char[007	]
-// c
-/// triple
-asx  @calculatedFrom( ""a\""b""
-) `say ""hi""`// " ++ [27880; 37322]%N ++ runes_of_ascii "
-,  @tag(4294967296 )
-    char[1//x
-] packetx @calculatedFrom(""a\""b""
-    ) ,
-// " ++ [128512]%N ++ runes_of_ascii " emoji
-// a // b
-@calculatedFrom(""" ++ [233]%N ++ runes_of_ascii "t" ++ [233]%N ++ runes_of_ascii """  ) repeat pack // " ++ [27880; 37322]%N ++ runes_of_ascii "
-,
-    } // c")).
-Eval vm_compute in ("<<<M649>>>" ++ check (runes_of_ascii "root packet tag { }  packet MetaDataX{char[007	]
-// c
-/// triple
-asx  @calculatedFrom( ""a\""b""
-) `say ""hi""`// " ++ [27880; 37322]%N ++ runes_of_ascii "
-,  @tag(4294967296 )
-    char[1//x
-] packetx @calculatedFrom(""a\""b""
-    ) ,
-// " ++ [128512]%N ++ runes_of_ascii " emoji
-// a // b
-@calculatedFrom(""" ++ [233]%N ++ runes_of_ascii "t" ++ [233]%N ++ runes_of_ascii """  ) repeat pack // " ++ [27880; 37322]%N ++ runes_of_ascii "
-,
-    } } // c")).
-Eval vm_compute in ("<<<M491>>>" ++ check (runes_of_ascii "root packet i16 { }  packet MetaDataX{char[007	]
-// c
-/// triple
-asx  @calculatedFrom( ""a\""b""
-) `say ""hi""`// " ++ [27880; 37322]%N ++ runes_of_ascii "
-,  @tag(4294967296 )
-    char[1//x
-] packetx @calculatedFrom(""a\""b""
-    ) ,
-// " ++ [128512]%N ++ runes_of_ascii " emoji
-// a // b
-@calculatedFrom(""" ++ [233]%N ++ runes_of_ascii "t" ++ [233]%N ++ runes_of_ascii """  ) repeat pack // " ++ [27880; 37322]%N ++ runes_of_ascii "
-,
-    } // c")).
-Eval vm_compute in ("<<<M493>>>" ++ check (runes_of_ascii "root packet tag  }  packet MetaDataX{char[007	]
-// c
-/// triple
-asx  @calculatedFrom( ""a\""b""
-) `say ""hi""`// " ++ [27880; 37322]%N ++ runes_of_ascii "
-,  @tag(4294967296 )
-    char[1//x
-] packetx @calculatedFrom(""a\""b""
-    ) ,
-// " ++ [128512]%N ++ runes_of_ascii " emoji
-// a // b
-@calculatedFrom(""" ++ [233]%N ++ runes_of_ascii "t" ++ [233]%N ++ runes_of_ascii """  ) repeat pack // " ++ [27880; 37322]%N ++ runes_of_ascii "
-,
-    } // c")).
-Eval vm_compute in ("<<<M638>>>" ++ check (runes_of_ascii "root packet tag { }  packet MetaDataX{char[007	]
-// c
-/// triple
-asx  @calculatedFrom( ""a\""b""
-) `say ""hi""`// " ++ [27880; 37322]%N ++ runes_of_ascii "
-,  @tag(4294967296 )
-    char[1//x
-] packetx @calculatedFrom(""a\""b""
-    ) ,
-// " ++ [128512]%N ++ runes_of_ascii " emoji
-// a // b
-@calculatedFrom(""" ++ [233]%N ++ runes_of_ascii "t" ++ [233]%N ++ runes_of_ascii """  ) repeat  // " ++ [27880; 37322]%N ++ runes_of_ascii "
-,
-    } // c")).
-Eval vm_compute in ("<<<M538>>>" ++ check (runes_of_ascii "root packet tag { }  packet MetaDataX{char[007	]
-// c
-/// triple
-asx   ""a\""b""
-) `say ""hi""`// " ++ [27880; 37322]%N ++ runes_of_ascii "
-,  @tag(4294967296 )
-    char[1//x
-] packetx @calculatedFrom(""a\""b""
-    ) ,
-// " ++ [128512]%N ++ runes_of_ascii " emoji
-// a // b
-@calculatedFrom(""" ++ [233]%N ++ runes_of_ascii "t" ++ [233]%N ++ runes_of_ascii """  ) repeat pack // " ++ [27880; 37322]%N ++ runes_of_ascii "
-,
-    } // c")).
-Eval vm_compute in ("<<<M1508>>>" ++ check (runes_of_ascii "options
-    {  FixedStringPadChar=	'0'
-    ; 
-}packet
-Q {
-
-zchar[
-	4
-] z , @rightPad
-( '\x00'  ) char[3 ] 
-n , char[ 5
-] d
-
-    ,  }root 
-packet R {
-    Q
-,
-	zchar[ 8
-    ] 
-top
-, repeat zchar[
-2
-
-    ] zs,
-
-    }
-
-")).
-Eval vm_compute in ("<<<M1936>>>" ++ check (runes_of_ascii "packet A {
-    match k as n {
-        ""\
-                "" : B,
-        [""\
-                "", 1] : C,
-        [
-            1, 2, 3, 4, 5,
-            ""\
-                        ""
-        ] : D,
-    },
-}")).
-Eval vm_compute in ("<<<M1671>>>" ++ check (runes_of_ascii "packet u128 {
-    u8 a,
+Eval vm_compute in ("<<<M3908>>>" ++ check (runes_of_ascii "options {
+    ArrayPrefixLenType = u64;
+    FixedStringPadFromLeft = false;
 }
 
-root packet Msg {
-    u8 k,
-    u24 {
-        u8 Hi,
-        u16 Lo,
+packet Trade {
+}
+
+packet Reject {
+    InPx94 {
+        repeat Trade,
+        string count,
+        InFlags14 {
+            u8 pad0,
+        },
+        repeat InSide239 {
+            char[8] lastPx,
+            repeat i64 clOrdID,
+            i64 Acct,
+        },
     },
-    repeat i24 {
-        u32 q,
+    repeat string clOrdID,
+    zchar[5] sym,
+}
+
+packet Quote {
+    repeat Reject,
+}
+
+packet Logon {
+    repeat Reject,
+    char[] Acct,
+    @leftPad('0')
+    char[4] tag7,
+}
+
+root packet Fill {
+    @rightPad('0')
+    char[1] count,
+    u8 f1,
+    u32 Qty @lengthOf(Body),
+    match f1 as Body {
+        [195, 3] : Reject,
+        110 : Quote,
+        141 : Logon,
+        21 : Trade,
     },
-    u128,
-    u16 float32x,
-    string s,
+    u32 Flags @calculatedFrom(""CR\
+    C32""),
 }")).
-Eval vm_compute in ("<<<M400>>>" ++ check (runes_of_ascii "packet
-    // `tick` ""quote"" 'q'
-    crc
+Eval vm_compute in ("<<<M4303>>>" ++ check (runes_of_ascii "packet float {
+}
+
+packet o {
+    zchar[3] x `doc`,
+    repeat string_ {
+        char[] stringy `" ++ [233]%N ++ runes_of_ascii "`,
+    },
+    repeat uint32 a1 ``,//
+    int64 Pad @calculatedFrom(""1""),
+    @lengthOf(crc)
+    repeat u16 packetx,
+    msg_type @lengthOf(crc),
+    @tag(3)
+    i16 u128,
+    zchar[65535] Logon `crlf
+    line`,
+    @lengthOf(repeatCount)
+    @calculatedFrom(""a\""b"")
+    crc tag,
+}
+
+root packet i8i8 {
+    repeat Packet {
+        msg_type @calculatedFrom(""a\""b""),
+        /// triple
+        // 50% %s
+    },
+}// c
+
+packet i8i8 {
+    //	t
+    i32 a1 @calculatedFrom(""\n"") `// not a comment`,
+}
+
+root packet u128 {
+    @leftPad('\x00')
+    x_y_z @lengthOf(lengthOf),
+    repeat u32 calculatedFrom,
+    u8 _x @calculatedFrom(""" ++ [128512]%N ++ runes_of_ascii """) `u8 x,`,
+    int8 Pad,
+    crc,
+}")).
+Eval vm_compute in ("<<<M1030>>>" ++ check (runes_of_ascii "root
+    packet len
+    {// a // b
+char[ 0123456789 // " ++ [27880; 37322]%N ++ runes_of_ascii "
+] pack @calculatedFrom(""a\\"") `say ""hi""` , match Header
+    as
+    trueish {[ ""a\\"" ,
+255 ,007 ] :	asx
+    , } ,
+match Pad as
+    Foo // `tick` ""quote"" 'q'
+{""\n"" : uint8x	1: lengthOf
+    , 65535
+    : u128,
+},
+} packet
+    tag  { o
+rootA``
+, }root
+packet tag {
+uint8x,
+    @lengthOf( int ) // 50% %s
+@tag(0 ) Pad ,
 // packet A { u8 x, }
-//	t
-{
-u32 u32 a1 ,
-    // trailing space 
-    roots
-charz //
-`two words`,	}
-    MetaData int {
-} /// triple")).
-Eval vm_compute in ("<<<M683>>>" ++ check (runes_of_ascii "root packet len // trailing space 
-{
-// " ++ [27880; 37322]%N ++ runes_of_ascii "
-//	t
-char[10
-] metadata	@lengthOf( o ) `crlf
-line`,
-    @rightPad
-( ' '
-) ) string
-    Header @calculatedFrom( ""a\\""
-    ), }
-")).
-Eval vm_compute in ("<<<M441>>>" ++ check (runes_of_ascii "packet
-    // `tick` ""quote"" 'q'
-    crc
-// packet A { u8 x, }
-//	t
-{
-u32 a1 ,
-    // trailing space 
-    roots
-charz //
-`two words`,	}
-    int MetaData {
-} /// triple")).
-Eval vm_compute in ("<<<M404>>>" ++ check (runes_of_ascii "packet
-    // `tick` ""quote"" 'q'
-    crc
-// packet A { u8 x, }
-//	t
-{
-u32  ,
-    // trailing space 
-    roots
-charz //
-`two words`,	}
-    MetaData int {
-} /// triple")).
-Eval vm_compute in ("<<<M1883>>>" ++ check (runes_of_ascii "root  packet matchKey{zchar[
-	3
-
-]
-
-    pack
-// c
-@calculatedFrom(
-""a	b""  ) `doc`
-    ,  }
-
-    options {  }
-
-    MetaData
-A { 
-int8
-msg_type
-	,
-
-    }")).
-Eval vm_compute in ("<<<M1707>>>" ++ check (runes_of_ascii "
-root	packet // c
-      matchKey
-
-    {zchar[ 3
-	] pack  @calculatedFrom( ""a	b""
-)`doc`
+// 50% %s
+u8 x , @lengthOf(
+Z9_) f32 BodyLength
+`tab	here` ,
+    repeat
+    char[
+255
+] f32a
+    , repeat
+msg_type lengthOf ,	@leftPad ( '\x00' ) repeat	int32 asx,
+repeat string f32a , @leftPad ( )
+len Foo ,
+} // trailing space 
+packet uint8x {  calculatedFrom
+    // 50% %s
     ,
+/// triple
+// trailing space 
+} MetaData asx{ // c
 }
-	options
-{
-	}
-
-MetaData A
-
-{ 
-int8 msg_type
-    ,}
 ")).
-Eval vm_compute in ("<<<M1689>>>" ++ check (runes_of_ascii "packet A {
-    match k as n {
-        [
-            ""a"", 22, ""c c"", 4, ""e"",
-            66, ""g"", 8, ""i""
-        ] : B,
-        2 : C,
-    },
-}")).
-Eval vm_compute in ("<<<M1954>>>" ++ check (runes_of_ascii "
-packet
-
-    o{repeat
-	Logon  uint8x
-
-    ,  } 
-// c
-options
-
-    {asx
-
-    = zchar[ 3
-    ]
-    stringy  ='\x00'
-
-    }
-
-")).
-Eval vm_compute in ("<<<M2073>>>" ++ check (runes_of_ascii "// c
-root packet matchKey {
-    zchar[3] pack @calculatedFrom(""a	b"") `doc`,
+Eval vm_compute in ("<<<M4199>>>" ++ check (runes_of_ascii "root packet metadata {
+    repeat float32 roots,
+    repeat string asx,
+    string roots @lengthOf(As),
+    char[10] crc @lengthOf(roots) `{ , }`,
+    i64 Logon @calculatedFrom(""{,}""),
+    i16 options1 @calculatedFrom(""CRC32""),
+    @calculatedFrom(""abc"")
+    @calculatedFrom(""" ++ [233]%N ++ runes_of_ascii "t" ++ [233]%N ++ runes_of_ascii """)
+    zchar[65535] matchKey,
+    @rightPad('0')
+    repeat matchKey `u8 x,`,
+    repeat len,
 }
 
 options {
+    pack = ' ';
+    u8x = char[7];
+    i64_ = true;
+    calculatedFrom = true;
 }
 
-MetaData A {
-    int8 msg_type,
+root packet rootA {
+    @calculatedFrom(""a\""b"")
+    @rightPad('\x00')
+    @calculatedFrom(""a\""b"")
+    char[] Pad,
+}
+
+MetaData i64_ {
+    u64 matchKey,
+    int64 Foo,
+    char[0123456789] BodyLength `
+        `,
+    tag crc,
 }")).
-Eval vm_compute in ("<<<M1239>>>" ++ check (runes_of_ascii "root packet matchKey { zchar[ 3 ] pack @calculatedFrom( // c
-""a	b"" ) `doc` , } options { } MetaData A { int8 msg_type , }")).
-Eval vm_compute in ("<<<M70>>>" ++ check (runes_of_ascii "
-options {  MetaDataX= ""\" ++ [233]%N ++ runes_of_ascii """ }options {
-// @lengthOf(
+Eval vm_compute in ("<<<M133>>>" ++ check (runes_of_ascii "// a // b
+packet
+a1 { @calculatedFrom( ""packet"" )u16 x @lengthOf( u8x
+    ),@tag( 255 ) u32 a1 @calculatedFrom( """ ++ [128512]%N ++ runes_of_ascii """ )/// triple
+, repeat i8 T `it's`, asx , @rightPad('\x00' )	body { repeatCount
+    {i8 As // `tick` ""quote"" 'q'
+,	zchar[ 10 ]
+    asx
+`tab	here` , match
+    leftPad
+    as chars
+    {
+    [
+    """ ++ [128512]%N ++ runes_of_ascii """ ] :
+    repeatCount // c
+, 1	: matchKey , [
+    1
+,3
+// c
+// a // b
+] :
+    float
+[ 255 ] // c
+:
+// `tick` ""quote"" 'q'
 //	t
-Logon = ""1""
-    x_y_z = 65535  } MetaData
-    //	t
-    u8x {}
+msg_type [
+    3]
+    : repeatCount , // " ++ [128512]%N ++ runes_of_ascii " emoji
+}	,} // " ++ [128512]%N ++ runes_of_ascii " emoji
+,
+char[] string_`100% of %d`, // " ++ [27880; 37322]%N ++ runes_of_ascii "
+char[007] Pad
+// packet A { u8 x, }
+// @lengthOf(
+`line1
+line2` // `tick` ""quote"" 'q'
+, char[007 ] Pad `two words` , }, } 	 ")).
+Eval vm_compute in ("<<<M114>>>" ++ check (runes_of_ascii "
+packet repeatCount {
+    matchKey roots`crlf
+line` , char
+    int@lengthOf(
+x_y_z  ) , calculatedFrom @calculatedFrom(
+""a\""b"" // packet A { u8 x, }
+) , }
+root packet f32a
+    {
+/// triple
+// trailing space 
+@rightPad (
+'0' // " ++ [27880; 37322]%N ++ runes_of_ascii "
+) repeat u8 Pad, trueish calculatedFrom
+    // `tick` ""quote"" 'q'
+    , @calculatedFrom(
+""" ++ [28040; 24687]%N ++ runes_of_ascii """ ) match msg_type
+    as pack {""abc""
+:
+repeatCount ,
+""{,}"" : repeatCount  ""a	b"" : calculatedFrom } ,} root packet repeatCount  { int32
+    //
+    stringy ,/// triple
+}
+root packet//	t
+BodyLength {@lengthOf( As )//x
+repeat charz { match chars
+as chars { 0
+: MetaDataX ""\n"" :
+    // trailing space 
+    crc	,
+    } , } , }")).
+Eval vm_compute in ("<<<M1151>>>" ++ check (runes_of_ascii "
+root packet Pad{
+@calculatedFrom( ""`tick`""  ) repeat i8i8 u8x  ,	}	MetaData lengthOf { uint8 tag `it's` , tag	f32a`" ++ [28040; 24687; 31867; 22411]%N ++ runes_of_ascii "`// " ++ [27880; 37322]%N ++ runes_of_ascii "
+, metadata calculatedFrom
+,  u16 T // " ++ [128512]%N ++ runes_of_ascii " emoji
+`tab	here` , len	stringy
+    `100% of %d`
+,	}MetaData roots
+    { } // @lengthOf(
+root
+packet // a // b
+x_y_z {
+    repeat options1 As, @calculatedFrom( ""a\""b"" )
+    match float as calculatedFrom
+{1:float , 0123456789 :Packet , ""{,}""// " ++ [27880; 37322]%N ++ runes_of_ascii "
+:leftPad ,[
+4294967296
+,	""CRC32"" ] :
+// `tick` ""quote"" 'q'
+// @lengthOf(
+Foo// 50% %s
+0123456789
+    : roots ,
+    [""a\""b"" ,	4294967296, 0123456789 , 10 ] : u128 ,  }// " ++ [128512]%N ++ runes_of_ascii " emoji
+,
+    /// triple
+    }")).
+Eval vm_compute in ("<<<M501>>>" ++ check (runes_of_ascii "packet
+    // a // b
+    msg_type { @leftPad (
+'0' )repeat zchar[
+    4294967296] roots ,repeat
+u32 u128
+    ,
+@rightPad(  '\x00' ) match x_y_z  as As { 007: Foo ,} ,  @leftPad ( ' ') @leftPad ( ) _x u
+,@tag( 7
+    )
+    repeat chars{ falsey leftPad `" ++ [28040; 24687; 31867; 22411]%N ++ runes_of_ascii "`
+, zchar[  4294967296
+] packetx@lengthOf(i64_ // " ++ [128512]%N ++ runes_of_ascii " emoji
+)`doc`  , char[ 1]options1 @calculatedFrom(  ""1""), }
+    , i64 matchKey @calculatedFrom(  ""x y"" ) `line1
+line2`
+    , zchar[ 007 ]uint8x `` , @lengthOf( falsey /// triple
+) @calculatedFrom(""" ++ [233]%N ++ runes_of_ascii "t" ++ [233]%N ++ runes_of_ascii """) // 50% %s
+As
+    {//
+zchar { repeat	int8  asx , repeat Packet , } ,
+}
+    ,
+    }
 ")).
-Eval vm_compute in ("<<<M1795>>>" ++ check (runes_of_ascii "packet metadata {
-    Logon {
-        A `" ++ [28040; 24687; 31867; 22411]%N ++ runes_of_ascii "`,
-        tag o,
-    },
-    // c
-    zchar len `// not a comment`,
+Eval vm_compute in ("<<<M1109>>>" ++ check (runes_of_ascii "  root  packet
+    BodyLength {
+@calculatedFrom(""\n"" )int8 a1
+    //	t
+    @lengthOf( falsey ), @calculatedFrom(
+    ""\" ++ [233]%N ++ runes_of_ascii """ ) @tag( 0123456789	) lengthOf ,  @tag(//x
+007) match
+Logon as	f32a { 0:zchar,
+} // trailing space 
+,	@lengthOf(	i8i8)
+    match
+    options1  as string_ { // a // b
+[
+""a\""b"",00,
+// trailing space 
+/// triple
+4294967296
+,4294967296 ,""a	b"" , 1 // " ++ [27880; 37322]%N ++ runes_of_ascii "
+]
+:
+A
+},  }  root packet
+Logon {
+    @calculatedFrom(
+""x y""
+    )@calculatedFrom(
+    // " ++ [27880; 37322]%N ++ runes_of_ascii "
+    ""abc""
+) A ,} MetaData leftPad {uint32 msg_type
+`" ++ [233]%N ++ runes_of_ascii "` ,  string
+Packet`" ++ [233]%N ++ runes_of_ascii "`
+    , Packet  _x `100% of %d` ,
 }")).
-Eval vm_compute in ("<<<M1752>>>" ++ check (runes_of_ascii "packet
-    A
-{ match 
-k
+Eval vm_compute in ("<<<M4096>>>" ++ check (runes_of_ascii "MetaData roots {
+}
+
+packet chars {
+    @tag(255)
+    char[1] Packet,
+    @lengthOf(calculatedFrom)
+    Packet {
+        uint32 len,
+        uint64 uint8x @lengthOf(stringy),
+    },
+    x @lengthOf(trueish) `100% of %d`,
+}
+
+packet len {
+    zchar[3] pack `crlf
+    line`,
+    float @lengthOf(calculatedFrom),
+    char[3] rootA @lengthOf(body),
+    @calculatedFrom(""{,}"")
+    // c
+    // c
+    match _x as Header {
+        00 : _x,
+        [""packet"", 10, 0123456789, 255] : a1,
+        42 : falsey,
+        007 : msg_type,
+    },
+}
+// packet A { u8 x, }")).
+Eval vm_compute in ("<<<M3734>>>" ++ check (runes_of_ascii "packet _x {
+    string lengthOf `two words`,
+    @rightPad()
+    uint32 calculatedFrom,
+    @lengthOf(float)
+    len leftPad,
+    i32 A,
+    @lengthOf(i64_)
+    options1 @lengthOf(u) `" ++ [28040; 24687; 31867; 22411]%N ++ runes_of_ascii "`,
+    @tag(1)
+    @tag(7)
+    @calculatedFrom(""a	b"")
+    match Z9_ as crc {
+        [65535, 255, """", 4294967296, 007] : u128,
+        42 : int,
+        [0] : i8i8,
+        """ ++ [128512]%N ++ runes_of_ascii """ : Foo,
+        [4294967296] : float,
+        255 : Foo,
+    },
+    options1 `it's`,
+    char[] matchKey @calculatedFrom(""1"") `
+        `,
+    uint16 a1 `it's`,
+}")).
+Eval vm_compute in ("<<<M66>>>" ++ check (runes_of_ascii "packet
+    BodyLength // `tick` ""quote"" 'q'
+{
+Foo BodyLength , char[] int @calculatedFrom(""// no comment""
+    ) ,match pack
+as	i8i8
+// c
+// c
+{
+""a\""b"" :
+// c
+//x
+rootA ,
+    } ,}MetaData pack
+    { pack packetx// `tick` ""quote"" 'q'
+, i8 f32a , u64
+MetaDataX ,  }
+options { tag = /// triple
+true
+    // a // b
+    ;
+    falsey = true // " ++ [128512]%N ++ runes_of_ascii " emoji
+trueish
+    = ""1"" ; T
+    // 50% %s
+    = 7 Z9_=  '0' // `tick` ""quote"" 'q'
+;
+    }
+options { leftPad =true ;
+options1 = float64 Header = ' ' } // " ++ [27880; 37322]%N)).
+Eval vm_compute in ("<<<M3642>>>" ++ check (runes_of_ascii "packet calculatedFrom {
+    /// triple
+    pack matchKey ``,
+    int8 MetaDataX `a\`,
+    @lengthOf(crc)
+    int16 T,
+    zchar[1] Logon @lengthOf(T) `line1
+        line2`,
+    @rightPad()
+    Packet `u8 x,`,
+}
+
+packet pack {
+}
+
+packet Z9_ {
+    Pad @lengthOf(_x) `say ""hi""`,
+    @lengthOf(matchKey)
+    @calculatedFrom(""" ++ [128512]%N ++ runes_of_ascii """)
+    f32 matchKey @calculatedFrom(""{,}"") `// not a comment`,
+}
+
+options {
+    u = char[65535];
+    rootA = 3
+    leftPad = ' ';
+    repeatCount = '\x00';
+}")).
+Eval vm_compute in ("<<<M4406>>>" ++ check (runes_of_ascii "  // " ++ [27880; 37322]%N ++ runes_of_ascii "
+    root packet u8x
+
+    { @rightPad
+
+(
+'0') 
+    // a // b
+	// `tick` ""quote"" 'q'
+  repeat char[] Z9_ 	 // c
+	,
+falsey
+
+string_	`{ , }`// @lengthOf(
+	, match  rootA
+as x_y_z
+    { """ ++ [233]%N ++ runes_of_ascii "t" ++ [233]%N ++ runes_of_ascii """: charz ,
+	""" ++ [28040; 24687]%N ++ runes_of_ascii """:
+    len
+
+    0 :
+    As
+    ,
+    42  // trailing space 
+	:
+// 50% %s
+
+	// c
+	  packetx , }
+
+,
+
+    }packet int{
+repeat
+
+uint32
+
+body	, @calculatedFrom(
+	""abc""  )//
+	  @lengthOf(roots  ) 
+@lengthOf(
+	u
+    )
+char[] Packet`it's`
+	,
+}")).
+Eval vm_compute in ("<<<M3449>>>" ++ check (runes_of_ascii "  packet	NewOrder
+    {
+u32
+    qty
+
+    ,
+}	packet
+    Cancel{
+
+    u64 id
+    ,
+    }  packet
+	Business {
+
+u8 Kind
+	,match Kind as
+
+    Detail
+{
+	1 : NewOrder ,	2 
+:
+    Cancel ,	} 
+, 
+}  packet
+TcpFrame	{ 
+u8 T ,
+match
+    T  as Body {
+
+    1
+: Business
+, }
+, }  packet
+
+UdpFrame
+    {
+u8 U ,
+    match 
+U 
 as
 
-n {[	""a""
+Body {
+
+    1 
+:Business ,
+} , Business
+extra
+    ,}
+
+root
+    packet 
+Wire { TcpFrame 
+,
+
+UdpFrame ,
+
+    }
+")).
+Eval vm_compute in ("<<<M3886>>>" ++ check (runes_of_ascii "
+
+  MetaData	Z9_	{//
+    char[] u128 	 /// triple
+		`" ++ [28040; 24687; 31867; 22411]%N ++ runes_of_ascii "` // `tick` ""quote"" 'q'
+,
+    float64
+    BodyLength
 
 ,
-    22 ,  ""c c""
-,4
-,""e"" ,66
+roots
+	MetaDataX
+`
+`
+,	packetx
+
+    falsey
+    ,  
+      // trailing space 
+	// packet A { u8 x, }
+		i16
+
+body 	 // `tick` ""quote"" 'q'
+    ,	f64
+	i64_
+    ,  }
+	options
+
+{
+u8x =
+    ""x y""
+	;
+    packetx
+
+    =255  ; f32a= ""it's""
+    }
+	packet
+    u128
+{
+T//	t
+	@calculatedFrom(""a\\"" )
+	,}
+")).
+Eval vm_compute in ("<<<M946>>>" ++ check (runes_of_ascii "packet asx
+{
+@calculatedFrom(
+""" ++ [28040; 24687]%N ++ runes_of_ascii """ )
+    u8 Packet @lengthOf(u128
+)/// triple
+,i64	lengthOf @calculatedFrom( ""it's"" )
 ,
-
-""g"" 
-,	8
-	,	""i""]
-
-:  B 2	:C 
-}	, }
-
-")).
-Eval vm_compute in ("<<<M1711>>>" ++ check (runes_of_ascii "
-packet
-
-a1
-{match /// triple
-    T
-as 
-pack {
-
-007 : Header,} ,calculatedFrom, }
-
-MetaData	options1	{ }")).
-Eval vm_compute in ("<<<M1751>>>" ++ check (runes_of_ascii "
-// top
-		root 
-    // c0
-
-packet
-	    // c1
-	pack
-    // c2
-    {  
-  // c3
-    	} 
-
-    // c4
- 
-")).
-Eval vm_compute in ("<<<M46>>>" ++ check (runes_of_ascii "packet rootA{ }
-options
-{ uint8x =//	t
-u32 ; i64_
-=	255 ;
-len
-    = ' '
-    ;
-    } // @lengthOf(")).
-Eval vm_compute in ("<<<M1784>>>" ++ check (runes_of_ascii "packet o {
-    repeat Logon uint8x,
+@leftPad // packet A { u8 x, }
+( ) Foo
+    @lengthOf( msg_type ) ,
+@lengthOf(
+leftPad // c
+)tag`" ++ [233]%N ++ runes_of_ascii "`
+    ,
+} packet A {zchar[255] len @lengthOf(
+matchKey ) ,
+@calculatedFrom( ""CRC32"") Foo {	int8 /// triple
+asx @lengthOf( metadata ) `u8 x,` ,} , }
+MetaData len { // @lengthOf(
+} 	 ")).
+Eval vm_compute in ("<<<M4291>>>" ++ check (runes_of_ascii "packet Pad {
+    @calculatedFrom(""{,}"")
+    match charz as asx {
+        1 : repeatCount,
+        ""{,}"" : falsey,
+        10 : rootA,
+        0 : crc,
+        00 : roots,
+    },
+    /// triple
+    zchar[3] A,
+    msg_type `
+        `,
+    MetaDataX As,
+    @lengthOf(Z9_)
+    repeat f32 _x,
+    @lengthOf(Pad)
+    uint32 Logon,
+    @tag(4294967296)
+    // packet A { u8 x, }
+    T ``,
+}")).
+Eval vm_compute in ("<<<M3740>>>" ++ check (runes_of_ascii "packet charz {
+    repeat As {
+        rootA @calculatedFrom(""" ++ [28040; 24687]%N ++ runes_of_ascii """) `crlf
+        line`,
+        zchar[0] u8x,
+        int @lengthOf(u8x),
+    },
+    @rightPad()
+    uint32 a1 @calculatedFrom(""x y""),
+    // " ++ [128512]%N ++ runes_of_ascii " emoji
+    // " ++ [128512]%N ++ runes_of_ascii " emoji
 }
 
-options {
-    asx = zchar[3]// c
-    stringy = '\x00'
+packet Packet {
+    @rightPad('0')
+    repeat matchKey `it's`,
+}
+
+root packet Packet {
+    u32 f32a @calculatedFrom(""a\\"") `u8 x,`,
 }")).
-Eval vm_compute in ("<<<M1430>>>" ++ check (runes_of_ascii "packet chars { } packet MetaDataX { @tag( 42 ) i16 string_ , repeat x `say ""hi""` , } // c
-")).
-Eval vm_compute in ("<<<M1198>>>" ++ check (runes_of_ascii "MetaData float { float64 charz `
-` , } root packet // c
-chars { @rightPad ( '0' ) Foo , }")).
-Eval vm_compute in ("<<<M1409>>>" ++ check (runes_of_ascii "packet chars { } packet MetaDataX {
-// c
-@tag( 42 ) i16 string_ , repeat x `say ""hi""` , }")).
-Eval vm_compute in ("<<<M370>>>" ++ check (runes_of_ascii "MetaData falsey {
+Eval vm_compute in ("<<<M893>>>" ++ check (runes_of_ascii "packet A
+    // " ++ [128512]%N ++ runes_of_ascii " emoji
+    { @rightPad
+(' ') uint32 o @calculatedFrom(
+    """" ),
+    } // a // b
+packet
+matchKey // `tick` ""quote"" 'q'
+{ repeat chars
+    ,	string chars `crlf
+line`
 //x
+// " ++ [128512]%N ++ runes_of_ascii " emoji
+, string
+    x_y_z ,
+A // packet A { u8 x, }
+roots , @lengthOf( body )
+    repeat zchar[  10
+] x ,
+    }options{
+pack//
+=
+    ""abc""
+    } // @lengthOf(")).
+Eval vm_compute in ("<<<M1320>>>" ++ check (runes_of_ascii "  packet T
+{ @tag( 42) match MetaDataX
+as repeatCount { [42 ,00 , """"
+,
+""1"" , 00 ] :
+    Z9_ , 0: packetx
+    ,
+    3 :
+    float , 42 :  u8x
+, ""1"": i8i8
+} // " ++ [128512]%N ++ runes_of_ascii " emoji
+, repeat options1 `" ++ [233]%N ++ runes_of_ascii "`,
+    @lengthOf( int
+    ) chars{
+msg_type
+,} , }	options
+{
+    _x = // @lengthOf(
+""// no comment""
+    }
+    // " ++ [128512]%N ++ runes_of_ascii " emoji
+    packet
+    int { }
+
+")).
+Eval vm_compute in ("<<<M1127>>>" ++ check (runes_of_ascii "packet repeatCount{ @tag( 7	)@lengthOf(crc
+)@lengthOf(
+    u
+)// trailing space 
+repeat i64_ matchKey
+,
+match
+    pack
+    as _x{ // " ++ [128512]%N ++ runes_of_ascii " emoji
+""a\\"":
+x_y_z , """ ++ [233]%N ++ runes_of_ascii "t" ++ [233]%N ++ runes_of_ascii """
+:	packetx , },  @calculatedFrom( ""a\""b"" )
+    char[]
+    // packet A { u8 x, }
+    tag , repeat
+//
+// " ++ [128512]%N ++ runes_of_ascii " emoji
+crc f32a , repeat	chars metadata `say ""hi""` , }
+")).
+Eval vm_compute in ("<<<M1149>>>" ++ check (runes_of_ascii "packet f32a{  @tag( 0 )
+// trailing space 
+// " ++ [128512]%N ++ runes_of_ascii " emoji
+Header
 //	t
-char[ /// triple
-65535]Packet `{ , }` , // @lengthOf(
-} //x")).
-Eval vm_compute in ("<<<M1139>>>" ++ check (runes_of_ascii "packet metadata { Logon { A `" ++ [28040; 24687; 31867; 22411]%N ++ runes_of_ascii "` ,
+// 50% %s
+{ repeat asx `{ , }` ,repeat
+    BodyLength , zchar[
+    255 ] crc @calculatedFrom( ""packet"" //	t
+) ,  repeat char[] i8i8 `
+` ,
+} , @rightPad (
+    '0' ) string Foo`{ , }`
+, // packet A { u8 x, }
+} packet Z9_	{ char
+    i64_
+    , }")).
+Eval vm_compute in ("<<<M186>>>" ++ check (runes_of_ascii "root packet len { repeat
+zchar[
+    4294967296 // trailing space 
+] f32a , //
+x_y_z @lengthOf( trueish
+) // trailing space 
+`two words` ,
+    //
+    @rightPad ( ) @calculatedFrom( ""\" ++ [233]%N ++ runes_of_ascii """ // c
+)string
+chars	`say ""hi""` ,@rightPad( ' ') uint8 options1@calculatedFrom(
+""1""
+    )
+`say ""hi""` ,}
+")).
+Eval vm_compute in ("<<<M1398>>>" ++ check (runes_of_ascii "packet falsey{	match x_y_z as Z9_ { ""CRC32"":
+metadata ,	""CRC32""
+    :u
+,
+    10	: Logon, ""it's"":repeatCount 7
+: options1
+    ,
+    }	, @calculatedFrom(  ""a\\"" )zchar[
+    0	] zchar
+    @calculatedFrom(
+    ""a\\""
+)`say ""hi""`
+, } MetaData matchKey { u32 // 50% %s
+matchKey`doc`
+, }")).
+Eval vm_compute in ("<<<M499>>>" ++ check (runes_of_ascii "packet asx { @tag( //x
+00) _x	{	repeat rootA
+    , } , }packet u{@calculatedFrom( ""a\""b""
+)u8
+    roots
+`" ++ [233]%N ++ runes_of_ascii "`, tag{repeat
+    // " ++ [27880; 37322]%N ++ runes_of_ascii "
+    asx , // c
+}
+, @tag(	255 ) options1
+    { len	{
+// packet A { u8 x, }
+//
+Logon ,repeat leftPad ,	}
+    // packet A { u8 x, }
+    ,} , } 	 ")).
+Eval vm_compute in ("<<<M1647>>>" ++ check (runes_of_ascii "// 50% %s
+packet	a1
+    { zchar[
+// a // b
+// 50% %s
+007]
+T `it's`
+    ,@rightPad
+    // a // b
+    (
+'\x00')
+    o repeatCount , }  packet Logon {  }packet	Logon //x
+{ repeat // " ++ [128512]%N ++ runes_of_ascii " emoji
+uint16 u128 u128
+    //
+    `a\`,
+falsey
+@calculatedFrom(""packet"" ) ,
+    } 	 ")).
+Eval vm_compute in ("<<<M1597>>>" ++ check (runes_of_ascii "// 50% %s
+packet	a1
+    { zchar[
+// a // b
+// 50% %s
+007]
+T `it's`
+    ,@rightPad
+    // a // b
+    (
+'\x00')
+    o repeatCount , } }  packet Logon {  }packet	Logon //x
+{ repeat // " ++ [128512]%N ++ runes_of_ascii " emoji
+uint16 u128
+    //
+    `a\`,
+falsey
+@calculatedFrom(""packet"" ) ,
+    } 	 ")).
+Eval vm_compute in ("<<<M1538>>>" ++ check (runes_of_ascii "// 50% %s
+packet	a1
+    { zchar[
+// a // b
+// 50% %s
+]007
+T `it's`
+    ,@rightPad
+    // a // b
+    (
+'\x00')
+    o repeatCount , }  packet Logon {  }packet	Logon //x
+{ repeat // " ++ [128512]%N ++ runes_of_ascii " emoji
+uint16 u128
+    //
+    `a\`,
+falsey
+@calculatedFrom(""packet"" ) ,
+    } 	 ")).
+Eval vm_compute in ("<<<M86>>>" ++ check (runes_of_ascii "root
+    // @lengthOf(
+    packet falsey { // c
+repeat// " ++ [128512]%N ++ runes_of_ascii " emoji
+zchar[ 42	]  f32a ,
+matchKey@lengthOf( // packet A { u8 x, }
+x ) , // `tick` ""quote"" 'q'
+@calculatedFrom(""{,}""
+) @leftPad
+('\x00' ) //	t
+repeat	f32a , @rightPad ( '\x00'
+) T @lengthOf(	o ),
+    }")).
+Eval vm_compute in ("<<<M85>>>" ++ check (runes_of_ascii "packet As {zchar[ 42
+    ] float @calculatedFrom( ""a\""b"" )
+    //	t
+    `{ , }` , // 50% %s
+@tag(
+    42 ) @rightPad ('0' )	@calculatedFrom( ""a\""b"") repeat int32 Header ,float @lengthOf(falsey  ) , @leftPad
+    ( ) uint32
+    options1
+@lengthOf(
+Pad)`a\` , }")).
+Eval vm_compute in ("<<<M1674>>>" ++ check (runes_of_ascii "// 50% %s
+packet	a1
+    { zchar[
+// a // b
+// 50% %s
+007]
+T `it's`
+    ,@rightPad
+    // a // b
+    (
+'\x00')
+    o repeatCount , }  packet Logon {  }packet	Logon //x
+{ repeat // " ++ [128512]%N ++ runes_of_ascii " emoji
+uint16 u128
+    //
+    `a\`,
+falsey
+@calculatedFrom([ ) ,
+    } 	 ")).
+Eval vm_compute in ("<<<M3722>>>" ++ check (runes_of_ascii "
+packet
+
+falsey {
+	} 
+MetaData
+
+Logon 
+    //
+	{ }
+    packet //	t
+	  x_y_z
+	{ } 
+packet
+
+    repeatCount { 
+lengthOf @calculatedFrom(
+
+    """ ++ [28040; 24687]%N ++ runes_of_ascii """ ) `u8 x,`
+    ,  }options{
+Z9_= false  ;
+    Foo 
+= float64
+;
+
+} 
+      // packet A { u8 x, }
+")).
+Eval vm_compute in ("<<<M1265>>>" ++ check (runes_of_ascii "
+MetaData metadata {u32 lengthOf
+    , }
+    root packet u // `tick` ""quote"" 'q'
+{ Foo @lengthOf(body
+) ,  @lengthOf( metadata ) match i64_
+as	msg_type
+{
+3 : len 4294967296 :tag ,42 :
+Header , [ ""packet"" ]
+    : stringy
+,
+10	: a1, }, }")).
+Eval vm_compute in ("<<<M344>>>" ++ check (runes_of_ascii "packet tag
+{ }root packet a1
+{ }
+    MetaData pack { Packet Z9_ `` ,leftPad trueish , char[] _x // 50% %s
+`
+` , packetx Packet `it's`,  tag // " ++ [27880; 37322]%N ++ runes_of_ascii "
+msg_type `" ++ [233]%N ++ runes_of_ascii "`
+    , char[3 //x
+]
+    // trailing space 
+    i64_`crlf
+line`, }
+")).
+Eval vm_compute in ("<<<M4027>>>" ++ check (runes_of_ascii "
+packet
+
+body{ repeat  char[ 
+0123456789
+
+    ] u128
+
+    `doc`
+
+, }options
+{	chars
+= 7
+asx	= 
+""abc""
+	T
+=char ;
+	//	t
+  // trailing space 
+	  a1// `tick` ""quote"" 'q'
+    =
+    int8
+
+    tag
+
+    = """ ++ [128512]%N ++ runes_of_ascii """
+;
+
+}
+")).
+Eval vm_compute in ("<<<M710>>>" ++ check (runes_of_ascii "// a // b
+options{ Pad = ""x y"" ; As =  7 x_y_z
+= '\x00'
+float = '\x00';i8i8= 1 } packet
+packetx {
+    @rightPad//	t
+(
+'\x00' )
+repeat
+char[]  zchar , }root
+packet int { @lengthOf( packetx ) repeat A , } //	t")).
+Eval vm_compute in ("<<<M4048>>>" ++ check (runes_of_ascii "// 50% %s
+packet a1 {
+    zchar[007] T `it's`,
+    @rightPad('\x00')
+    o repeatCount,
+}
+
+packet Logon {
+}
+
+packet Logon {
+    // " ++ [128512]%N ++ runes_of_ascii " emoji
+    uint16 u128 `a\`,
+    falsey @calculatedFrom(""packet""),
+}")).
+Eval vm_compute in ("<<<M1044>>>" ++ check (runes_of_ascii "options {
+string_= ' ' Header
+=
+    // c
+    i8
+;msg_type =
+zchar[ 00// trailing space 
+]
+; float = true string_ = '\x00' ;
+}
+    MetaData zchar //x
+{ zchar chars ,
+} // `tick` ""quote"" 'q'")).
+Eval vm_compute in ("<<<M223>>>" ++ check (runes_of_ascii "
+packet
+    u128{
+    // " ++ [128512]%N ++ runes_of_ascii " emoji
+    a1	T
+//x
+//
+`u8 x,` , repeat packetx { repeat zchar[ 255
+    ] _x,
+f32a@lengthOf( stringy ) ``, }
+    , stringy ,asx @lengthOf( u128 )
+, }
+
+")).
+Eval vm_compute in ("<<<M3758>>>" ++ check (runes_of_ascii "// packet A { u8 x, }
+	packet
+	u128{ }
+    options { Z9_  // a // b
+	= u32 }options
+    { }
+    MetaData  a1
+
+    {
+char[
+
+42
+
+]
+roots
+    `" ++ [28040; 24687; 31867; 22411]%N ++ runes_of_ascii "` , 
+} 
+  // " ++ [128512]%N ++ runes_of_ascii " emoji
+ 
+")).
+Eval vm_compute in ("<<<M1291>>>" ++ check (runes_of_ascii "packet falsey {repeat
+    matchKey ,} options	{
+    As = 3// @lengthOf(
+; // " ++ [27880; 37322]%N ++ runes_of_ascii "
+}
+    root packet
+    x { @tag(65535  )	repeatCount a1// packet A { u8 x, }
+,
+    }
+")).
+Eval vm_compute in ("<<<M1630>>>" ++ check (runes_of_ascii "// 50% %s
+packet	a1
+    { zchar[
+// a // b
+// 50% %s
+007]
+T `it's`
+    ,@rightPad
+    // a // b
+    (
+'\x00')
+    o repeatCount , }  packet Logon {  }packet")).
+Eval vm_compute in ("<<<M2138>>>" ++ check (runes_of_ascii "MetaData BodyLength
+{ int8 Foo
+, string
+    MetaDataX , float zchar ,pack options1
+,asx string_, @lengthOf(
+packet u8x {Foo@lengthOf(charz )
+`" ++ [28040; 24687; 31867; 22411]%N ++ runes_of_ascii "`,  }
+")).
+Eval vm_compute in ("<<<M1209>>>" ++ check (runes_of_ascii "
+packet MetaDataX
+{u16 options1 ,repeat
+    asx
+,
+u
+    a1`say ""hi""`
+,@calculatedFrom(
+    ""// no comment"" )
+f64
+    rootA `it's`  , }
+// 50% %s
+")).
+Eval vm_compute in ("<<<M2181>>>" ++ check (runes_of_ascii "MetaData BodyLength
+{ int8 Foo
+, string
+    MetaDataX , float zchar ,pack options1
+,asx string_, }
+packet u8x {Foo@lengthOf(charz )
+`" ++ [28040; 24687; 31867; 22411]%N ++ runes_of_ascii "`, ,  }
+")).
+Eval vm_compute in ("<<<M4341>>>" ++ check (runes_of_ascii "MetaData Header {
+    Header u ``,
+    char[4294967296] u128,
+    float32 falsey,
+    char[10] roots `tab	here`,
+    int64 calculatedFrom `" ++ [233]%N ++ runes_of_ascii "`,
+}")).
+Eval vm_compute in ("<<<M2177>>>" ++ check (runes_of_ascii "MetaData BodyLength
+{ int8 Foo
+, string
+    MetaDataX , float zchar ,pack options1
+,asx string_, }
+packet u8x {Foo@lengthOf(charz )
+,`" ++ [28040; 24687; 31867; 22411]%N ++ runes_of_ascii "`  }
+")).
+Eval vm_compute in ("<<<M1007>>>" ++ check (runes_of_ascii "root	packet MetaDataX{@calculatedFrom( ""CRC32"" )	@calculatedFrom(	"""" ) int64 Pad //
+@lengthOf(
+u128 )
+`" ++ [28040; 24687; 31867; 22411]%N ++ runes_of_ascii "`
+    // trailing space 
+    , }")).
+Eval vm_compute in ("<<<M2249>>>" ++ check (runes_of_ascii "options
+    {
+x_y_z// " ++ [27880; 37322]%N ++ runes_of_ascii "
+= 10 ; }
+packet body body {
+    @calculatedFrom(
+// trailing space 
+// " ++ [27880; 37322]%N ++ runes_of_ascii "
+""1""
+)	match T as Foo
+    {
+255 :T , }
+,}")).
+Eval vm_compute in ("<<<M836>>>" ++ check (runes_of_ascii "  packet falsey
+{zchar[  1 ]a1@calculatedFrom(//
+""a\\"") ,
+u8x _x , float64 rootA, Foo{ match stringy as calculatedFrom{ 3 :
+o ,}, } ,  }")).
+Eval vm_compute in ("<<<M2163>>>" ++ check (runes_of_ascii "MetaData BodyLength
+{ int8 Foo
+, string
+    MetaDataX , float zchar ,pack options1
+,asx string_, }
+packet u8x {Foo as charz )
+`" ++ [28040; 24687; 31867; 22411]%N ++ runes_of_ascii "`,  }
+")).
+Eval vm_compute in ("<<<M2040>>>" ++ check (runes_of_ascii "
+packet leftPad {
+@leftPad( '0')
+u32
+i<64_ `100% of %d` ,repeat// 50% %s
+i8 chars
+    ,
+} MetaData
+    f32a
+{ // packet A { u8 x, }
+}")).
+Eval vm_compute in ("<<<M1978>>>" ++ check (runes_of_ascii "
+packet leftPad {
+@leftPad( '0')
+u32
+i64_ `100% of %d` repeat,// 50% %s
+i8 chars
+    ,
+} MetaData
+    f32a
+{ // packet A { u8 x, }
+}")).
+Eval vm_compute in ("<<<M2295>>>" ++ check (runes_of_ascii "options
+    {
+x_y_z// " ++ [27880; 37322]%N ++ runes_of_ascii "
+= 10 ; }
+packet body {
+    @calculatedFrom(
+// trailing space 
+// " ++ [27880; 37322]%N ++ runes_of_ascii "
+""1""
+)	match T as Foo
+    255
+{ :T , }
+,}")).
+Eval vm_compute in ("<<<M2253>>>" ++ check (runes_of_ascii "options
+    {
+x_y_z// " ++ [27880; 37322]%N ++ runes_of_ascii "
+= 10 ; }
+packet body 
+    @calculatedFrom(
+// trailing space 
+// " ++ [27880; 37322]%N ++ runes_of_ascii "
+""1""
+)	match T as Foo
+    {
+255 :T , }
+,}")).
+Eval vm_compute in ("<<<M2288>>>" ++ check (runes_of_ascii "options
+    {
+x_y_z// " ++ [27880; 37322]%N ++ runes_of_ascii "
+= 10 ; }
+packet body {
+    @calculatedFrom(
+// trailing space 
+// " ++ [27880; 37322]%N ++ runes_of_ascii "
+""1""
+)	match T as 
+    {
+255 :T , }
+,}")).
+Eval vm_compute in ("<<<M534>>>" ++ check (runes_of_ascii "
+root  packet msg_type { packetx // " ++ [128512]%N ++ runes_of_ascii " emoji
+, } root packet u8x { @calculatedFrom(
+    ""CRC32""  ) repeat u128{ u32
+asx, } , }
+
+")).
+Eval vm_compute in ("<<<M2407>>>" ++ check (runes_of_ascii "MetaData
+    calculatedFrom
+{ zchar[  10 ]
+    As`tab	here`,
+    }// trailing space 
+options  { roots ='\x00' ;  packet A
+{ }
+")).
+Eval vm_compute in ("<<<M3032>>>" ++ check (runes_of_ascii "packet A {
+    u16 len @lengthOf(body) `a
+    b
+  c`,
+    u32 crc @calculatedFrom(""CRC32"") `a
+    b
+  c`,
+    string body,
+}")).
+Eval vm_compute in ("<<<M1843>>>" ++ check (runes_of_ascii "packet o {
+    roots roots `it's`
+// trailing space 
+//x
+, char[ 42
+    ]  A, // " ++ [27880; 37322]%N ++ runes_of_ascii "
+f64
+repeatCount
+    `crlf
+line`
+,}")).
+Eval vm_compute in ("<<<M1926>>>" ++ check (runes_of_ascii "packet " ++ [252]%N ++ runes_of_ascii "ber {
+    roots `it's`
+// trailing space 
+//x
+, char[ 42
+    ]  A, // " ++ [27880; 37322]%N ++ runes_of_ascii "
+f64
+repeatCount
+    `crlf
+line`
+,}")).
+Eval vm_compute in ("<<<M846>>>" ++ check (runes_of_ascii "root packet
+stringy
 // c
-tag o , } , zchar len `// not a comment` , }")).
-Eval vm_compute in ("<<<M1344>>>" ++ check (runes_of_ascii "packet o { // c
-repeat Logon uint8x , } options { asx = zchar[ 3 ] stringy = '\x00' }")).
-Eval vm_compute in ("<<<M1441>>>" ++ check (runes_of_ascii "options {
+// packet A { u8 x, }
+{ } packet o// a // b
+{ } options { //	t
+T =
+    char[] } // " ++ [128512]%N ++ runes_of_ascii " emoji")).
+Eval vm_compute in ("<<<M1889>>>" ++ check (runes_of_ascii "packet o {
+    roots `it's`
+// trailing space 
+//x
+, char[ 42
+    ]  A, // " ++ [27880; 37322]%N ++ runes_of_ascii "
+f64
+`crlf
+line`
+    repeatCount
+,}")).
+Eval vm_compute in ("<<<M95>>>" ++ check (runes_of_ascii "packet charz { lengthOf { roots
+{
+char[ 4294967296 ] rootA ``
+,} ,repeat u64 A  ``
+    , repeat  T
+, }  , }
+")).
+Eval vm_compute in ("<<<M3010>>>" ++ check (runes_of_ascii "packet A {
+  match k as n {
+    [""a"", ""bb"", 007, ""d"", ""e"", 66, ""g"", ""h"", 9, ""j"", ""k"", 12] : B
+    2 : C
+  },
+}")).
+Eval vm_compute in ("<<<M3773>>>" ++ check (runes_of_ascii "options {
+    int = ' ';
+    T = ""`tick`"";
+    A = 255;
+    matchKey = ' ';
+    body = zchar[4294967296];
+}")).
+Eval vm_compute in ("<<<M3388>>>" ++ check (runes_of_ascii "options {
     LittleEndian = true;
 }
 root packet P {
-    repeat char cs,
-    u8 x,
+    u16 a,
+    u32 Sum @calculatedFrom(""CRC32""),
 }
 ")).
-Eval vm_compute in ("<<<M1305>>>" ++ check (runes_of_ascii "MetaData // c
-body { i64 pack `it's` , } packet stringy { int16 calculatedFrom , }")).
-Eval vm_compute in ("<<<M811>>>" ++ check (runes_of_ascii "packet A {
+Eval vm_compute in ("<<<M2984>>>" ++ check (runes_of_ascii "packet A {
   match k as n {
-    [""a"", ""bb"", ""c c"", ""d"", ""e""] : B
+    [""a"", ""bb"", 007, ""d"", ""e"", 66, ""g"", ""h"", 9, ""j""] : B
     2 : C
   },
 }")).
-Eval vm_compute in ("<<<M1161>>>" ++ check (runes_of_ascii "// top
-root
-    // c0
+Eval vm_compute in ("<<<M4287>>>" ++ check (runes_of_ascii "  packet  x
+
+{ 
+} packet repeatCount
+	{	charz 
+charz
+
+,
+} 
+// 50% %s
 packet
-    // c1
-pack
-    // c2
-{
-    // c3
+	trueish {
+
+    } ")).
+Eval vm_compute in ("<<<M324>>>" ++ check (runes_of_ascii "
+options { i64_
+    = 7 chars = true; stringy =
+//x
+/// triple
+'\x00' x_y_z = false	;
 }
-    // c4
+// " ++ [27880; 37322]%N ++ runes_of_ascii "
 ")).
-Eval vm_compute in ("<<<M800>>>" ++ check (runes_of_ascii "packet A {
+Eval vm_compute in ("<<<M1411>>>" ++ check (runes_of_ascii "root packet SimpleMessage {
+    uint16 MsgType `" ++ [28040; 24687; 31867; 22411]%N ++ runes_of_ascii "`,
+    string JsonBody `Json" ++ [23383; 31526; 20018; 28040; 24687; 20307]%N ++ runes_of_ascii "`,
+}")).
+Eval vm_compute in ("<<<M1488>>>" ++ check (runes_of_ascii "packet
+T
+{ match repeatCount as	calculatedFrom
+{ [65535 ]	: As	,
+} , ,}
+// trailing space 
+")).
+Eval vm_compute in ("<<<M2937>>>" ++ check (runes_of_ascii "packet A {
   match k as n {
-    [1, ""bb"", 007, ""d""] : B
+    [""a"", ""bb"", ""c c"", ""d"", ""e"", ""f"", ""g""] : B
     2 : C
   },
 }")).
-Eval vm_compute in ("<<<M796>>>" ++ check (runes_of_ascii "packet A {
-  match k as n {
-    [1, 22, 007, 4] : B
-    2 : C
-  },
-}")).
-Eval vm_compute in ("<<<M913>>>" ++ check (runes_of_ascii "packet A {
-    B b `a
-b`,
-    B `a
-b`,
-    repeat B bs `a
-b`,
-}")).
-Eval vm_compute in ("<<<M1299>>>" ++ check (runes_of_ascii "packet x { @rightPad ( ) repeat roots Logon `doc` , }
-// c
-")).
-Eval vm_compute in ("<<<M1297>>>" ++ check (runes_of_ascii "packet x { @rightPad ( ) repeat roots Logon `doc` ,
-// c
-}")).
-Eval vm_compute in ("<<<M1864>>>" ++ check (runes_of_ascii "MetaData M {
-    u8 x `
-    x`,
-    T t `
-    x`,
-}")).
-Eval vm_compute in ("<<<M177>>>" ++ check (runes_of_ascii "root packet
-repeatCount{ } // trailing space ")).
-Eval vm_compute in ("<<<M1114>>>" ++ check (runes_of_ascii "root packet u128 { chars `it's` , } // c
-")).
-Eval vm_compute in ("<<<M966>>>" ++ check (runes_of_ascii "options {
-    a = ""\
-"";
-    b = ""\
-""
-}")).
-Eval vm_compute in ("<<<M1937>>>" ++ check (runes_of_ascii "
-packet A 
+Eval vm_compute in ("<<<M1791>>>" ++ check (runes_of_ascii "options{  lengthOf =//x
+i16;
+    BodyLength = 0 ; pack
+= false;
+    A = char[ char[ 3 ] }")).
+Eval vm_compute in ("<<<M111>>>" ++ check (runes_of_ascii "// 50% %s
+packet leftPad	{ } packet Packet
 {
-    u8
-	x `a
-b` ,
-}")).
-Eval vm_compute in ("<<<M998>>>" ++ check (runes_of_ascii "packet A {
- u8 x `d" ++ [8192]%N ++ runes_of_ascii "`, // c" ++ [8192]%N ++ runes_of_ascii "
-}")).
-Eval vm_compute in ("<<<M948>>>" ++ check (runes_of_ascii "packet A {
-    u8 x `
-x`,
-}")).
-Eval vm_compute in ("<<<M51>>>" ++ check (runes_of_ascii "packet BodyLength {}
+@lengthOf(	chars  ) repeat u128 u8x`" ++ [233]%N ++ runes_of_ascii "`
+, }
 ")).
-Eval vm_compute in ("<<<M2005>>>" ++ check (runes_of_ascii "packet options1 {
+Eval vm_compute in ("<<<M3709>>>" ++ check (runes_of_ascii "packet A {
+    u32 crc @calculatedFrom(""%d%s""),
+    @calculatedFrom(""%d%s"")
+    u8 y,
 }")).
-Eval vm_compute in ("<<<M1041>>>" ++ check (runes_of_ascii "packet A {
+Eval vm_compute in ("<<<M467>>>" ++ check (runes_of_ascii "packet  string_ {@calculatedFrom(
+    """ ++ [233]%N ++ runes_of_ascii "t" ++ [233]%N ++ runes_of_ascii """
+    )asx
+@calculatedFrom( ""CRC32"" ) ,} 	 ")).
+Eval vm_compute in ("<<<M1747>>>" ++ check (runes_of_ascii "options{  lengthOf =//x
+i16;
+    BodyLength 0 = ; pack
+= false;
+    A = char[ 3 ] }")).
+Eval vm_compute in ("<<<M1780>>>" ++ check (runes_of_ascii "options{  lengthOf =//x
+i16;
+    BodyLength = 0 ; pack
+= false;
+     = char[ 3 ] }")).
+Eval vm_compute in ("<<<M2027>>>" ++ check (runes_of_ascii "
+packet leftPad {
+@leftPad( '0')
+u32
+i64_ `100% of %d` ,repeat// 50% %s
+i8 char")).
+Eval vm_compute in ("<<<M1714>>>" ++ check (runes_of_ascii "u8{  lengthOf =//x
+i16;
+    BodyLength = 0 ; pack
+= false;
+    A = char[ 3 ] }")).
+Eval vm_compute in ("<<<M3266>>>" ++ check (runes_of_ascii "MetaData Foo { zchar[ 0 ] matchKey , } options {
+// c
+lengthOf = i32 u = 00 ; }")).
+Eval vm_compute in ("<<<M1907>>>" ++ check (runes_of_ascii "packet o {
+    roots `it's`
+// trailing space 
+//x
+, char[ 42
+    ]  A, // " ++ [27880; 37322]%N)).
+Eval vm_compute in ("<<<M1172>>>" ++ check (runes_of_ascii "packet
+_x { int8 Packet
+, } options{ } options { options1
+=
+    ' ' ;
 }
-// c" ++ [8203]%N)).
-Eval vm_compute in ("<<<M296>>>" ++ check (runes_of_ascii "packet f32a {  }")).
-Eval vm_compute in ("<<<M1912>>>" ++ check (runes_of_ascii "// " ++ [27880; 37322]%N ++ runes_of_ascii "
 ")).
-Eval vm_compute in ("<<<M109>>>" ++ check (runes_of_ascii "
+Eval vm_compute in ("<<<M3605>>>" ++ check (runes_of_ascii "packet A {
+    B b `x
+    `,
+    B `x
+    `,
+    repeat B bs `x
+    `,
+}")).
+Eval vm_compute in ("<<<M3401>>>" ++ check (runes_of_ascii "
 
+  root
+    packet
+P {repeat	string	ss ,
+
+    repeat
+u16
+
+ns  ,}
+")).
+Eval vm_compute in ("<<<M931>>>" ++ check (runes_of_ascii "packet
+metadata
+    { packetx
+x `u8 x,`
+    , // trailing space 
+}")).
+Eval vm_compute in ("<<<M53>>>" ++ check (runes_of_ascii "root
+packet
+len { int16//	t
+falsey @lengthOf( _x
+)	, } // " ++ [128512]%N ++ runes_of_ascii " emoji")).
+Eval vm_compute in ("<<<M2810>>>" ++ check (runes_of_ascii "char f32 char[ , char[ @calculatedFrom( char [ u64 ; u32 , char")).
+Eval vm_compute in ("<<<M3289>>>" ++ check (runes_of_ascii "// c
+packet u8x { } MetaData crc { char[ 4294967296 ] Foo , }")).
+Eval vm_compute in ("<<<M1085>>>" ++ check (runes_of_ascii "// 50% %s
+MetaData
+    lengthOf {char[ 00
+    ] falsey	, }
 
 ")).
+Eval vm_compute in ("<<<M1076>>>" ++ check (runes_of_ascii "options
+{leftPad // trailing space 
+=""x y"" // " ++ [27880; 37322]%N ++ runes_of_ascii "
+; } 	 ")).
+Eval vm_compute in ("<<<M4092>>>" ++ check (runes_of_ascii "packet A
+
+    {
+
+match
+k	as	n{ [
+
+1 ]:B 2
+	: 
+C }, } ")).
+Eval vm_compute in ("<<<M2881>>>" ++ check (runes_of_ascii "packet A { Inner { match k as n { [1,22] : B, }, }, }")).
+Eval vm_compute in ("<<<M607>>>" ++ check (runes_of_ascii "
+packet
+    trueish { // packet A { u8 x, }
+} //x")).
+Eval vm_compute in ("<<<M2743>>>" ++ check (runes_of_ascii "options { [ repeat @lengthOf( char[] i8 , char[")).
+Eval vm_compute in ("<<<M4464>>>" ++ check (runes_of_ascii "
+root	packet
+    A	{ u8
+
+    x	`
+x` 
+,
+
+}
+")).
+Eval vm_compute in ("<<<M3652>>>" ++ check (runes_of_ascii "packet A {
+    repeat zchar[65535] rootA,
+}")).
+Eval vm_compute in ("<<<M3992>>>" ++ check (runes_of_ascii "root packet u128 {
+    chars `doc`,
+}// c")).
+Eval vm_compute in ("<<<M3219>>>" ++ check (runes_of_ascii "// c
+root packet u128 { chars `doc` , }")).
+Eval vm_compute in ("<<<M2820>>>" ++ check ([804; 65533; 65533]%N ++ runes_of_ascii "h/" ++ [65533]%N ++ runes_of_ascii "P" ++ [65533]%N ++ runes_of_ascii "
+G'" ++ [11]%N ++ runes_of_ascii "d" ++ [65533]%N ++ runes_of_ascii "g" ++ [65533; 65533; 65533; 65533]%N ++ runes_of_ascii "(" ++ [29]%N ++ runes_of_ascii "0" ++ [65533; 65533]%N ++ runes_of_ascii "O" ++ [65533]%N ++ runes_of_ascii "[Y" ++ [65533; 65533]%N ++ runes_of_ascii "1p" ++ [65533]%N ++ runes_of_ascii "f" ++ [65533; 65533; 14]%N ++ runes_of_ascii "}")).
+Eval vm_compute in ("<<<M1036>>>" ++ check (runes_of_ascii "
+packet packetx
+{ packetx	asx ,  }
+")).
+Eval vm_compute in ("<<<M938>>>" ++ check (runes_of_ascii "options {/// triple
+zchar	= """ ++ [28040; 24687]%N ++ runes_of_ascii """
+}")).
+Eval vm_compute in ("<<<M2628>>>" ++ check (runes_of_ascii "packet A { @tag(1) @tag(2) u8 x, }")).
+Eval vm_compute in ("<<<M2079>>>" ++ check (runes_of_ascii "MetaData BodyLength
+{ int8 Foo
+,")).
+Eval vm_compute in ("<<<M2789>>>" ++ check ([65533]%N ++ runes_of_ascii "a" ++ [65533; 65533]%N ++ runes_of_ascii "(8" ++ [2]%N ++ runes_of_ascii "u" ++ [24; 65533; 65533; 65533]%N ++ runes_of_ascii "%" ++ [65533; 65533]%N ++ runes_of_ascii "d?" ++ [65533; 65533; 27]%N ++ runes_of_ascii "Su_" ++ [65533]%N ++ runes_of_ascii "e" ++ [65533; 65533]%N ++ runes_of_ascii "J" ++ [65533; 65533]%N ++ runes_of_ascii "c")).
+Eval vm_compute in ("<<<M3139>>>" ++ check (runes_of_ascii "packet A {
+ u8 x `d" ++ [8239]%N ++ runes_of_ascii "`, // c" ++ [8239]%N ++ runes_of_ascii "
+}")).
+Eval vm_compute in ("<<<M1744>>>" ++ check (runes_of_ascii "options{  lengthOf =//x
+i16;")).
+Eval vm_compute in ("<<<M2352>>>" ++ check (runes_of_ascii "
+Foo {Header //
+pack ,	} 	 ")).
+Eval vm_compute in ("<<<M3707>>>" ++ check (runes_of_ascii "// trailing space 
+	// " ++ [27880; 37322]%N)).
+Eval vm_compute in ("<<<M2737>>>" ++ check ([65533]%N ++ runes_of_ascii "U" ++ [65533]%N ++ runes_of_ascii "P" ++ [65533; 65533; 27]%N ++ runes_of_ascii "f" ++ [65533; 65533; 65533; 65533; 65533; 6]%N ++ runes_of_ascii "ka" ++ [65533]%N ++ runes_of_ascii "A" ++ [65533; 65533; 27]%N ++ runes_of_ascii "#" ++ [24]%N ++ runes_of_ascii "0")).
+Eval vm_compute in ("<<<M793>>>" ++ check (runes_of_ascii "
+packet MetaDataX {
+}
+")).
+Eval vm_compute in ("<<<M3697>>>" ++ check (runes_of_ascii "MetaData u128 {
+}//	t")).
+Eval vm_compute in ("<<<M2580>>>" ++ check (runes_of_ascii "packet A { x y z, }")).
+Eval vm_compute in ("<<<M3092>>>" ++ check (runes_of_ascii "packet A {
+}
+// c ")).
+Eval vm_compute in ("<<<M3173>>>" ++ check (runes_of_ascii "// c" ++ [6158]%N ++ runes_of_ascii "
+packet A {
+}")).
+Eval vm_compute in ("<<<M3130>>>" ++ check (runes_of_ascii "packet A {
+}// c" ++ [8233]%N)).
+Eval vm_compute in ("<<<M170>>>" ++ check (runes_of_ascii "options
+    {	}")).
+Eval vm_compute in ("<<<M1310>>>" ++ check (runes_of_ascii "// " ++ [128512]%N ++ runes_of_ascii " emoji
+
+")).
+Eval vm_compute in ("<<<M2742>>>" ++ check (runes_of_ascii ",gsV] /8sQa")).
+Eval vm_compute in ("<<<M3502>>>" ++ check (runes_of_ascii "
+
+  // c" ++ [133]%N)).
+Eval vm_compute in ("<<<M4133>>>" ++ check (runes_of_ascii "// c" ++ [8239]%N ++ runes_of_ascii "
+")).
+Eval vm_compute in ("<<<M2440>>>" ++ check (runes_of_ascii "char1")).
+Eval vm_compute in ("<<<M3146>>>" ++ check (runes_of_ascii "// c" ++ [11]%N)).
+Eval vm_compute in ("<<<M29>>>" ++ check (runes_of_ascii " 	 ")).
+Eval vm_compute in ("<<<M2687>>>" ++ check (runes_of_ascii """s""")).
+Eval vm_compute in ("<<<M2502>>>" ++ check (runes_of_ascii "@")).
